@@ -1,8 +1,11 @@
 import Firefly.Proof.AmlRows
 /-!
-Total correctness of the first pass (`parseObjectList` in `parseModeSkipAmbiguousBlocks`) of a table
-parsed into a pool without freed slots: no `.panic`, no `.outOfFuel` with fuel linear in the table
-length, and the pool stays well-formed (`Firefly.C13.WF`).
+Shared base of the total-correctness / panic-freedom proofs about the AML object parser: relational
+specifications of the lexical actions (`LexRel`, `rel_*`), the run lemmas of the parser-monad primitives
+(`bind_ex`, `lex_ex`, `updObj_ex`, …), the payload-only relation `PayOnly`, the fuel needs `needT … needNext`, and
+the split of `ParseAML` into `firstPass >>= afterFirstPass`.  The first-pass theorems themselves are in
+`Proof/AmlFirstPassG.lean` (any well-formed pool); the fresh-pool development that used to live here is subsumed
+by it.
 -/
 namespace Firefly.AmlParser
 open Firefly.AmlLex Firefly.AmlTree Firefly.C13
@@ -469,22 +472,8 @@ theorem rel_nextOpcode (d : Bytes) (hd : d.size + 1024 ≤ 4294967296) : LexRel 
         exact rel_checkOpcode d hd _ 2 (by have := b2.toNat_lt; omega) r _ hr i2 rfl (by show r.offset + 1 + 1 = r.offset + 2; omega) (by omega)
     · exact rel_checkOpcode d hd _ 1 (by have := b.toNat_lt; omega) r _ hr i1 rfl rfl (by omega)
 
-/-! ## the state invariant of the first pass and the run lemmas of the primitives -/
-
-/-- invariant of the parser state during the first pass (skip mode) of a table parsed into a pool
-without freed slots -/
-structure FP (d : Bytes) (s : PState) : Prop where
-  inv : Inv d s.r
-  tree : TreeOK s.tree
-  scopes : ∀ x ∈ s.scopeStack.toList, x < s.tree.pool.size
-  skip : s.allBlocks = false
-
-theorem FP.withR {d : Bytes} {s : PState} (h : FP d s) {r' : Reader} (hr : Inv d r') : FP d { s with r := r' } :=
-  ⟨hr, h.tree, h.scopes, h.skip⟩
-
-theorem FP.withTree {d : Bytes} {s : PState} (h : FP d s) {t' : ObjectTree} (ht : TreeOK t')
-    (hsz : s.tree.pool.size ≤ t'.pool.size) : FP d { s with tree := t' } :=
-  ⟨h.inv, ht, fun x hx => Nat.lt_of_lt_of_le (h.scopes x hx) hsz, h.skip⟩
+/-! ## generic run lemmas, relations and definitions shared by the developments that build on this file
+(`Proof/AmlPasses.lean`, `Proof/AmlFirstPassG.lean`, `Proof/AmlMerge.lean`) -/
 
 theorem bind_ex {α β : Type} {x : P α} {f : α → P β} {s s1 : PState} {a : α} {Q : β → PState → Prop}
     (e : x s = .ok (a, s1)) (h : ∃ b s2, f a s1 = .ok (b, s2) ∧ Q b s2) :
@@ -515,90 +504,10 @@ theorem getObj_ex {s : PState} {i : Nat} (hi : i < s.tree.pool.size) : getObj i 
   unfold getObj
   simp only [obj_eq hi, bind, Except.bind, pure, Except.pure]
 
-theorem objectAt_live_ex {d : Bytes} {s : PState} (h : FP d s) {i : Nat} (hi : i < s.tree.pool.size) :
-    objectAt i s = .ok (some i, s) := by
-  unfold objectAt
-  rw [objectAt_live (h.tree.allLive i hi)]
-  rfl
-
-theorem newObject_ex {d : Bytes} {s : PState} (h : FP d s) (op : Nat) (hsz : s.tree.pool.size < INV)
-    (hop : op ≠ pOpIntFreedObject) (hinfo : InfoOK (pOpcodeTableIndex op true)) :
-    ∃ t', newObject op s = .ok (s.tree.pool.size, { s with tree := t' }) ∧ TreeOK t' ∧
-      t'.pool.size = s.tree.pool.size + 1 ∧ (∀ x, x < s.tree.pool.size → slot t' x = slot s.tree x) ∧
-      slot t' s.tree.pool.size = initObj op (pOpcodeTableIndex op true) s.tableHandle { index := s.tree.pool.size } := by
-  obtain ⟨t', e, ht, hs1, hold, hnew⟩ := treeOK_newObject h.tree op (pOpcodeTableIndex op true) s.tableHandle hsz hop hinfo
-  refine ⟨t', ?_, ht, hs1, hold, hnew⟩
-  unfold newObject
-  simp only [e, bind, Except.bind, pure, Except.pure]
-
 theorem tree_ex {s : PState} {f : ObjectTree → Res ObjectTree} {t' : ObjectTree} (e : f s.tree = .ok t') :
     tree f s = .ok ((), { s with tree := t' }) := by
   unfold tree
   simp only [e, bind, Except.bind, pure, Except.pure]
-
-theorem scopeCurrent_ex {d : Bytes} {s : PState} (h : FP d s) (hne : s.scopeStack.size ≠ 0) :
-    ∃ sc, scopeCurrent s = .ok (some sc, s) ∧ sc < s.tree.pool.size := by
-  unfold scopeCurrent
-  cases hb : s.scopeStack.back? with
-  | none =>
-    exfalso; apply hne
-    simp only [Array.back?_eq_none_iff] at hb
-    rw [hb]; rfl
-  | some sc =>
-    have hmem : sc ∈ s.scopeStack.toList := by
-      have := Array.mem_of_back? hb
-      exact Array.mem_toList_iff.mpr this
-    have hlt := h.scopes sc hmem
-    refine ⟨sc, ?_, hlt⟩
-    simp only [objectAt_live (h.tree.allLive sc hlt)]
-    rfl
-
-/-! ## growth relation between states of the first pass -/
-
-/-- what every first-pass function guarantees about the state it leaves: the reader only moves
-forward, the pool only grows and by at most 16 objects per consumed byte plus `c`, parents of existing
-objects are untouched, the two stacks only grow, scope pushes are covered by pkgEnd pushes plus the
-credit `g`, and pkgEnd pushes by consumed bytes -/
-structure Grow (c g : Nat) (s s' : PState) : Prop where
-  off : s.r.offset ≤ s'.r.offset
-  pool : s.tree.pool.size ≤ s'.tree.pool.size
-  budget : s'.tree.pool.size + 16 * s.r.offset ≤ s.tree.pool.size + 16 * s'.r.offset + c
-  oldP : ∀ x, x < s.tree.pool.size → C13.P s'.tree x = C13.P s.tree x
-  sc : s.scopeStack.size ≤ s'.scopeStack.size
-  pk : s.pkgEndStack.size ≤ s'.pkgEndStack.size
-  scpk : s'.scopeStack.size + s.pkgEndStack.size ≤ s.scopeStack.size + s'.pkgEndStack.size + g
-  pkoff : s'.pkgEndStack.size + s.r.offset ≤ s.pkgEndStack.size + s'.r.offset
-  same : s'.allBlocks = s.allBlocks ∧ s'.tableHandle = s.tableHandle ∧ s'.streamEnd = s.streamEnd
-
-theorem Grow.refl (s : PState) : Grow 0 0 s s :=
-  ⟨Nat.le_refl _, Nat.le_refl _, by omega, fun _ _ => rfl, Nat.le_refl _, Nat.le_refl _, by omega, by omega, rfl, rfl, rfl⟩
-
-theorem Grow.trans {c1 g1 c2 g2 : Nat} {a b c : PState} (h1 : Grow c1 g1 a b) (h2 : Grow c2 g2 b c) :
-    Grow (c1 + c2) (g1 + g2) a c := by
-  refine ⟨Nat.le_trans h1.off h2.off, Nat.le_trans h1.pool h2.pool, ?_, ?_, Nat.le_trans h1.sc h2.sc,
-    Nat.le_trans h1.pk h2.pk, ?_, ?_, ?_⟩
-  · have := h1.budget; have := h2.budget; omega
-  · intro x hx; rw [h2.oldP x (Nat.lt_of_lt_of_le hx h1.pool), h1.oldP x hx]
-  · have := h1.scpk; have := h2.scpk; omega
-  · have := h1.pkoff; have := h2.pkoff; omega
-  · exact ⟨by rw [h2.same.1, h1.same.1], by rw [h2.same.2.1, h1.same.2.1], by rw [h2.same.2.2, h1.same.2.2]⟩
-
-theorem Grow.weaken {c g c' g' : Nat} {a b : PState} (h : Grow c g a b) (hc : c ≤ c') (hg : g ≤ g') : Grow c' g' a b :=
-  ⟨h.off, h.pool, by have := h.budget; omega, h.oldP, h.sc, h.pk, by have := h.scpk; omega, h.pkoff, h.same⟩
-
-/-- a reader-only step that moves forward -/
-theorem Grow.ofR (s : PState) (r' : Reader) (h : s.r.offset ≤ r'.offset) : Grow 0 0 s { s with r := r' } :=
-  ⟨h, Nat.le_refl _, by show s.tree.pool.size + 16 * s.r.offset ≤ s.tree.pool.size + 16 * r'.offset + 0; omega,
-   fun _ _ => rfl, Nat.le_refl _, Nat.le_refl _, by dsimp only; omega,
-   by show s.pkgEndStack.size + s.r.offset ≤ s.pkgEndStack.size + r'.offset; omega, rfl, rfl, rfl⟩
-
-/-- a payload update of one slot -/
-theorem Grow.ofSetAt (s : PState) (i : Nat) (f : Obj → Obj) (hf : KeepsLinks f) (hl : KeepsLive s.tree i f) :
-    Grow 0 0 s { s with tree := setAt s.tree i f } :=
-  ⟨Nat.le_refl _, by simp, by simp, fun x _ => (sameLinks_setAt s.tree i f hf hl).p x, Nat.le_refl _, Nat.le_refl _,
-   by dsimp only; omega, by dsimp only; omega, rfl, rfl, rfl⟩
-
-/-! ## payload-only steps -/
 
 /-- a step that changes only the reader (forward, same `pkgEnd`) and the payload of slot `obj` -/
 structure PayOnly (obj : Nat) (s s' : PState) : Prop where
@@ -610,13 +519,9 @@ structure PayOnly (obj : Nat) (s s' : PState) : Prop where
   pkgEnd : s'.r.pkgEnd = s.r.pkgEnd
   off : s.r.offset ≤ s'.r.offset
 
-theorem PayOnly.grow {obj : Nat} {s s' : PState} (h : PayOnly obj s s') : Grow 0 0 s s' :=
-  ⟨h.off, by rw [h.links.size]; exact Nat.le_refl _, by rw [h.links.size]; have := h.off; omega,
-   fun x _ => h.links.p x, by rw [h.scope]; exact Nat.le_refl _, by rw [h.pkg]; exact Nat.le_refl _,
-   by rw [h.scope, h.pkg]; omega, by rw [h.pkg]; have := h.off; omega, h.same⟩
-
 theorem SameLinks.refl (t : ObjectTree) : SameLinks t t :=
   ⟨rfl, rfl, fun _ => rfl, fun _ => rfl, fun _ => rfl, fun _ => rfl, fun _ => rfl, fun _ => rfl, fun _ => rfl⟩
+
 theorem SameLinks.trans {a b c : ObjectTree} (h1 : SameLinks a b) (h2 : SameLinks b c) : SameLinks a c :=
   ⟨by rw [h2.size, h1.size], by rw [h2.head, h1.head], fun x => by rw [h2.p, h1.p], fun x => by rw [h2.pv, h1.pv],
    fun x => by rw [h2.nx, h1.nx], fun x => by rw [h2.fi, h1.fi], fun x => by rw [h2.la, h1.la],
@@ -624,6 +529,7 @@ theorem SameLinks.trans {a b c : ObjectTree} (h1 : SameLinks a b) (h2 : SameLink
 
 theorem PayOnly.refl (obj : Nat) (s : PState) : PayOnly obj s s :=
   ⟨SameLinks.refl _, fun _ _ => rfl, rfl, rfl, ⟨rfl, rfl, rfl⟩, rfl, Nat.le_refl _⟩
+
 theorem PayOnly.trans {obj : Nat} {a b c : PState} (h1 : PayOnly obj a b) (h2 : PayOnly obj b c) : PayOnly obj a c :=
   ⟨h1.links.trans h2.links, fun x hx => by rw [h2.others x hx, h1.others x hx], by rw [h2.scope, h1.scope],
    by rw [h2.pkg, h1.pkg], ⟨by rw [h2.same.1, h1.same.1], by rw [h2.same.2.1, h1.same.2.1], by rw [h2.same.2.2, h1.same.2.2]⟩,
@@ -643,167 +549,15 @@ theorem PayOnly.ofSetAt (obj : Nat) (s : PState) (f : Obj → Obj) (hf : KeepsLi
   · rename_i hc; exact absurd hc.1.symm hx
   · rfl
 
-/-- FP is preserved by a payload-only step that keeps the table index of `obj` valid -/
-theorem FP.payOnly {d : Bytes} {obj : Nat} {s s' : PState} (h : FP d s) (hp : PayOnly obj s s') (hi : Inv d s'.r)
-    (hinfo : obj < s.tree.pool.size → InfoOK (slot s'.tree obj).infoIndex) : FP d s' := by
-  refine ⟨hi, ⟨wf_of_sameLinks h.tree.wf hp.links, ?_, ?_, ?_, by rw [hp.links.size]; exact h.tree.nonempty⟩, ?_, by rw [hp.same.1]; exact h.skip⟩
-  · intro x hx; rw [hp.links.live]; exact h.tree.allLive x (by rw [← hp.links.size]; exact hx)
-  · intro x hx hpx; rw [hp.links.p] at hpx ⊢; exact h.tree.mono x (by rw [← hp.links.size]; exact hx) hpx
-  · intro x hx
-    have hx' : x < s.tree.pool.size := by rw [← hp.links.size]; exact hx
-    by_cases hxo : x = obj
-    · subst hxo; exact hinfo hx'
-    · rw [hp.others x hxo]; exact h.tree.info x hx'
-  · intro x hx; rw [hp.scope] at hx; rw [hp.links.size]; exact h.scopes x hx
-
 macro "keeps_links" : tactic => `(tactic| (intro o; exact ⟨rfl, rfl, rfl, rfl, rfl, rfl⟩))
-
-theorem upd_step {d : Bytes} {s : PState} (h : FP d s) {obj : Nat} (ho : obj < s.tree.pool.size) (f : Obj → Obj)
-    (hf : KeepsLinks f) (hl : KeepsLive s.tree obj f) (hinfo : InfoOK (f (slot s.tree obj)).infoIndex) :
-    ∃ s1, updObj obj f s = .ok ((), s1) ∧ FP d s1 ∧ PayOnly obj s s1 ∧ slot s1.tree obj = f (slot s.tree obj) ∧
-      s1.r = s.r := by
-  refine ⟨_, updObj_ex f ho, ?_, PayOnly.ofSetAt obj s f hf hl, ?_, rfl⟩
-  · exact ⟨h.inv, treeOK_setAt h.tree obj f hf hl (fun _ => hinfo), fun x hx => by simpa using h.scopes x hx, h.skip⟩
-  · show slot (setAt s.tree obj f) obj = _
-    rw [slot_setAt']; simp [ho]
-
-theorem lex_step {α : Type} {d : Bytes} {x : LexM α} {R : Reader → α → Reader → Prop} (hx : LexRel d x R)
-    {s : PState} (h : FP d s) :
-    ∃ a s1, lex x s = .ok (a, s1) ∧ FP d s1 ∧ R s.r a s1.r ∧ s1 = { s with r := s1.r } := by
-  obtain ⟨a, r', e, hi, hR⟩ := lex_ex hx h.inv
-  exact ⟨a, _, e, h.withR hi, hR, rfl⟩
 
 /-- a reader-only step that keeps `pkgEnd` and moves forward is payload-only -/
 theorem PayOnly.ofLex (obj : Nat) {s s1 : PState} (hs1 : s1 = { s with r := s1.r }) (hp : s1.r.pkgEnd = s.r.pkgEnd)
     (ho : s.r.offset ≤ s1.r.offset) : PayOnly obj s s1 := by
   rw [hs1]; exact PayOnly.ofR obj s _ hp ho
 
-/-- `obj.value, res = parseNumConstant(n)` -/
-theorem setNumValue_tot {d : Bytes} {s : PState} (h : FP d s) {obj : Nat} (ho : obj < s.tree.pool.size) (n : Nat) :
-    ∃ res s', setNumValue d obj n s = .ok (res, s') ∧ FP d s' ∧ PayOnly obj s s' ∧
-      (∃ v, slot s'.tree obj = { slot s.tree obj with value := .u64 v }) ∧
-      ((res = .ok ∧ s'.r.offset = s.r.offset + n) ∨ res = .failed) := by
-  unfold setNumValue
-  obtain ⟨vr, s1, e1, h1, hR, hs1⟩ := lex_step (rel_parseNumConstant d n) h
-  refine bind_ex e1 ?_
-  have ht1 : s1.tree = s.tree := by rw [hs1]
-  have ho1 : obj < s1.tree.pool.size := by rw [ht1]; exact ho
-  obtain ⟨s2, e2, h2, hp2, hsl, hr2⟩ := upd_step h1 ho1 (fun o => { o with value := .u64 vr.1 }) (by keeps_links) Iff.rfl
-    (by rw [ht1]; exact h.tree.info obj ho)
-  refine bind_ex e2 (pure_ex ⟨h2, (PayOnly.ofLex obj hs1 hR.1 hR.2.1).trans hp2, ⟨vr.1, by rw [hsl, ht1]⟩, ?_⟩)
-  rw [hr2]
-  rcases hR.2.2.2 with ⟨hok, he⟩ | hf
-  · exact Or.inl ⟨hok, he⟩
-  · exact Or.inr hf
-
 /-- progress of a decoder: success consumed at least one byte -/
 def Prog (s s' : PState) (res : PRes) : Prop := (res = .ok ∧ s.r.offset < s'.r.offset) ∨ res = .failed
-
-theorem setStringValue_tot {d : Bytes} {s : PState} (h : FP d s) {obj : Nat} (ho : obj < s.tree.pool.size) :
-    ∃ res s', setStringValue d obj s = .ok (res, s') ∧ FP d s' ∧ PayOnly obj s s' ∧ Prog s s' res ∧
-      (∃ v, slot s'.tree obj = { slot s.tree obj with value := v }) := by
-  unfold setStringValue
-  obtain ⟨sr, s1, e1, h1, hR, hs1⟩ := lex_step (rel_parseString d) h
-  refine bind_ex e1 ?_
-  have ht1 : s1.tree = s.tree := by rw [hs1]
-  have ho1 : obj < s1.tree.pool.size := by rw [ht1]; exact ho
-  obtain ⟨s2, e2, h2, hp2, hsl2, hr2⟩ := upd_step h1 ho1 (fun o => { o with value := sliceVal sr.1 }) (by keeps_links) Iff.rfl
-    (by rw [ht1]; exact h.tree.info obj ho)
-  refine bind_ex e2 (pure_ex ⟨h2, (PayOnly.ofLex obj hs1 hR.1 hR.2.1).trans hp2, ?_, ⟨_, by rw [hsl2, ht1]⟩⟩)
-  unfold Prog; rw [hr2]; exact hR.2.2.2
-
-theorem setNameValue_tot {d : Bytes} (hd : d.size + 1024 ≤ 4294967296) {s : PState} (h : FP d s) {obj : Nat}
-    (ho : obj < s.tree.pool.size) :
-    ∃ res s', setNameValue d obj s = .ok (res, s') ∧ FP d s' ∧ PayOnly obj s s' ∧ Prog s s' res ∧
-      (∃ v, slot s'.tree obj = { slot s.tree obj with value := v }) := by
-  unfold setNameValue
-  obtain ⟨sr, s1, e1, h1, hR, hs1⟩ := lex_step (rel_parseNameString d hd) h
-  refine bind_ex e1 ?_
-  have ht1 : s1.tree = s.tree := by rw [hs1]
-  have ho1 : obj < s1.tree.pool.size := by rw [ht1]; exact ho
-  obtain ⟨s2, e2, h2, hp2, hsl2, hr2⟩ := upd_step h1 ho1 (fun o => { o with value := sliceVal sr.1 }) (by keeps_links) Iff.rfl
-    (by rw [ht1]; exact h.tree.info obj ho)
-  refine bind_ex e2 (pure_ex ⟨h2, (PayOnly.ofLex obj hs1 hR.1 hR.2.1).trans hp2, ?_, ⟨_, by rw [hsl2, ht1]⟩⟩)
-  unfold Prog; rw [hr2]; exact hR.2.2.2
-
-theorem live_opcode_ne {t : ObjectTree} (h : TreeOK t) {i : Nat} (hi : i < t.pool.size) :
-    (slot t i).opcode ≠ pOpIntFreedObject := live_opcode (h.allLive i hi)
-
-theorem setOpcode_tot {d : Bytes} {s : PState} (h : FP d s) {obj : Nat} (ho : obj < s.tree.pool.size) (op : Nat)
-    (hop : op ≠ pOpIntFreedObject) :
-    ∃ a s', setOpcode obj op s = .ok (a, s') ∧ FP d s' ∧ PayOnly obj s s' ∧ s'.r = s.r ∧
-      slot s'.tree obj = { slot s.tree obj with opcode := op } := by
-  unfold setOpcode
-  have hl : KeepsLive s.tree obj (fun o => { o with opcode := op }) := by
-    unfold KeepsLive
-    constructor
-    · intro hc; exact absurd hc hop
-    · intro hc; exact absurd hc (live_opcode_ne h.tree ho)
-  obtain ⟨s1, e1, h1, hp1, hsl, hr1⟩ := upd_step h ho (fun o => { o with opcode := op }) (by keeps_links) hl (h.tree.info obj ho)
-  exact ⟨(), s1, e1, h1, hp1, hr1, hsl⟩
-
-theorem finishSimpleArg_tot {d : Bytes} {s : PState} (h : FP d s) {obj : Nat} (ho : obj < s.tree.pool.size) (res : PRes)
-    (hinfo : InfoOK (pOpcodeTableIndex (slot s.tree obj).opcode true)) :
-    ∃ a s', finishSimpleArg obj res s = .ok (a, s') ∧ a = (some obj, res) ∧ FP d s' ∧ PayOnly obj s s' ∧ s'.r = s.r ∧
-      (slot s'.tree obj).value = (slot s.tree obj).value := by
-  unfold finishSimpleArg
-  refine bind_ex (getObj_ex ho) ?_
-  obtain ⟨s1, e1, h1, hp1, hsl, hr1⟩ := upd_step h ho
-    (fun o' => { o' with infoIndex := pOpcodeTableIndex (slot s.tree obj).opcode true }) (by keeps_links) Iff.rfl hinfo
-  refine bind_ex e1 (pure_ex ⟨rfl, h1, hp1, hr1, by rw [hsl]⟩)
-
-/-- one object was pushed, detached and childless; everything else is as before, the reader moved
-forward with the same `pkgEnd` -/
-structure Fresh1 (s s' : PState) : Prop where
-  size : s'.tree.pool.size = s.tree.pool.size + 1
-  old : ∀ x, x < s.tree.pool.size → slot s'.tree x = slot s.tree x
-  pn : C13.P s'.tree s.tree.pool.size = INV
-  fin : Fi s'.tree s.tree.pool.size = INV
-  scope : s'.scopeStack = s.scopeStack
-  pkg : s'.pkgEndStack = s.pkgEndStack
-  same : s'.allBlocks = s.allBlocks ∧ s'.tableHandle = s.tableHandle ∧ s'.streamEnd = s.streamEnd
-  pkgEnd : s'.r.pkgEnd = s.r.pkgEnd
-  off : s.r.offset ≤ s'.r.offset
-
-theorem Fresh1.grow {s s' : PState} (h : Fresh1 s s') : Grow 1 0 s s' :=
-  ⟨h.off, by rw [h.size]; omega, by rw [h.size]; have := h.off; omega,
-   fun x hx => by unfold C13.P; rw [h.old x hx], by rw [h.scope]; exact Nat.le_refl _, by rw [h.pkg]; exact Nat.le_refl _,
-   by rw [h.scope, h.pkg]; omega, by rw [h.pkg]; have := h.off; omega, h.same⟩
-
-/-- a fresh object followed by payload-only steps on it -/
-theorem Fresh1.thenPay {s s1 s2 : PState} (h : Fresh1 s s1) (hp : PayOnly s.tree.pool.size s1 s2) : Fresh1 s s2 := by
-  refine ⟨by rw [hp.links.size, h.size], ?_, by rw [hp.links.p]; exact h.pn, by rw [hp.links.fi]; exact h.fin,
-    by rw [hp.scope, h.scope], by rw [hp.pkg, h.pkg],
-    ⟨by rw [hp.same.1, h.same.1], by rw [hp.same.2.1, h.same.2.1], by rw [hp.same.2.2, h.same.2.2]⟩,
-    by rw [hp.pkgEnd, h.pkgEnd], Nat.le_trans h.off hp.off⟩
-  intro x hx
-  rw [hp.others x (by omega), h.old x hx]
-
-/-- a payload-only step before the fresh object is created -/
-theorem Fresh1.afterLex {s s0 s1 : PState} (hs0 : s0 = { s with r := s0.r }) (hp : s0.r.pkgEnd = s.r.pkgEnd)
-    (ho : s.r.offset ≤ s0.r.offset) (h : Fresh1 s0 s1) : Fresh1 s s1 := by
-  have ht : s0.tree = s.tree := by rw [hs0]
-  have hsc : s0.scopeStack = s.scopeStack := by rw [hs0]
-  have hpk : s0.pkgEndStack = s.pkgEndStack := by rw [hs0]
-  have hab : s0.allBlocks = s.allBlocks ∧ s0.tableHandle = s.tableHandle ∧ s0.streamEnd = s.streamEnd := by
-    rw [hs0]; exact ⟨rfl, rfl, rfl⟩
-  refine ⟨by rw [h.size, ht], fun x hx => by rw [h.old x (by rw [ht]; exact hx), ht], by rw [← ht]; exact h.pn,
-    by rw [← ht]; exact h.fin, by rw [h.scope, hsc], by rw [h.pkg, hpk],
-    ⟨by rw [h.same.1, hab.1], by rw [h.same.2.1, hab.2.1], by rw [h.same.2.2, hab.2.2]⟩, by rw [h.pkgEnd, hp],
-    Nat.le_trans ho h.off⟩
-
-/-- `newObject` as a step -/
-theorem newObject_step {d : Bytes} {s : PState} (h : FP d s) (op : Nat) (hsz : s.tree.pool.size < INV)
-    (hop : op ≠ pOpIntFreedObject) (hinfo : InfoOK (pOpcodeTableIndex op true)) :
-    ∃ s1, newObject op s = .ok (s.tree.pool.size, s1) ∧ FP d s1 ∧ Fresh1 s s1 ∧ s1.r = s.r ∧
-      slot s1.tree s.tree.pool.size = initObj op (pOpcodeTableIndex op true) s.tableHandle { index := s.tree.pool.size } := by
-  obtain ⟨t', e, ht, hs1, hold, hnew⟩ := newObject_ex h op hsz hop hinfo
-  refine ⟨_, e, h.withTree ht (by rw [hs1]; omega), ?_, rfl, hnew⟩
-  refine ⟨hs1, hold, ?_, ?_, rfl, rfl, ⟨rfl, rfl, rfl⟩, rfl, Nat.le_refl _⟩
-  · show C13.P t' s.tree.pool.size = INV
-    unfold C13.P; rw [hnew]; rfl
-  · show Fi t' s.tree.pool.size = INV
-    unfold Fi; rw [hnew]; rfl
 
 set_option maxRecDepth 20000 in
 theorem info_const :
@@ -816,50 +570,6 @@ theorem info_const :
     InfoOK (pOpcodeTableIndex opIntResolvedNamePath true) ∧ InfoOK (pOpcodeTableIndex opIntMethodCall true) := by
   unfold InfoOK; decide +kernel
 
-theorem simpleNum_tot {d : Bytes} {s : PState} (h : FP d s) {obj : Nat} (ho : obj < s.tree.pool.size) (op n : Nat)
-    (hop : op ≠ pOpIntFreedObject) (hinfo : InfoOK (pOpcodeTableIndex op true)) :
-    ∃ a s', simpleNum d obj op n s = .ok (a, s') ∧ a.1 = some obj ∧ FP d s' ∧ PayOnly obj s s' ∧
-      (∃ v, (slot s'.tree obj).value = .u64 v) ∧ ((a.2 = .ok ∧ s'.r.offset = s.r.offset + n) ∨ a.2 = .failed) := by
-  unfold simpleNum
-  obtain ⟨_, s1, e1, h1, hp1, hr1, hsl1⟩ := setOpcode_tot h ho op hop
-  refine bind_ex e1 ?_
-  have ho1 : obj < s1.tree.pool.size := by rw [hp1.links.size]; exact ho
-  obtain ⟨res, s2, e2, h2, hp2, ⟨v, hv⟩, hres⟩ := setNumValue_tot h1 ho1 n
-  refine bind_ex e2 ?_
-  have ho2 : obj < s2.tree.pool.size := by rw [hp2.links.size]; exact ho1
-  obtain ⟨a, s3, e3, ha, h3, hp3, hr3, hv3⟩ := finishSimpleArg_tot h2 ho2 res (by rw [hv, hsl1]; exact hinfo)
-  refine ⟨a, s3, e3, by rw [ha], h3, (hp1.trans hp2).trans hp3, ⟨v, by rw [hv3, hv]⟩, ?_⟩
-  rw [ha, hr3, ← hr1]; exact hres
-
-theorem simpleString_tot {d : Bytes} {s : PState} (h : FP d s) {obj : Nat} (ho : obj < s.tree.pool.size) :
-    ∃ a s', simpleString d obj s = .ok (a, s') ∧ a.1 = some obj ∧ FP d s' ∧ PayOnly obj s s' ∧ Prog s s' a.2 := by
-  unfold simpleString
-  obtain ⟨_, s1, e1, h1, hp1, hr1, hsl1⟩ := setOpcode_tot h ho opStringPrefix (by decide)
-  refine bind_ex e1 ?_
-  have ho1 : obj < s1.tree.pool.size := by rw [hp1.links.size]; exact ho
-  obtain ⟨res, s2, e2, h2, hp2, hres, ⟨v, hv⟩⟩ := setStringValue_tot h1 ho1
-  refine bind_ex e2 ?_
-  have ho2 : obj < s2.tree.pool.size := by rw [hp2.links.size]; exact ho1
-  obtain ⟨a, s3, e3, ha, h3, hp3, hr3, _⟩ := finishSimpleArg_tot h2 ho2 res (by rw [hv, hsl1]; exact info_const.2.2.2.2.2.1)
-  refine ⟨a, s3, e3, by rw [ha], h3, (hp1.trans hp2).trans hp3, ?_⟩
-  unfold Prog at hres ⊢
-  rw [ha, hr3, ← hr1]; exact hres
-
-theorem simpleName_tot {d : Bytes} (hd : d.size + 1024 ≤ 4294967296) {s : PState} (h : FP d s) {obj : Nat}
-    (ho : obj < s.tree.pool.size) :
-    ∃ a s', simpleName d obj s = .ok (a, s') ∧ a.1 = some obj ∧ FP d s' ∧ PayOnly obj s s' ∧ Prog s s' a.2 := by
-  unfold simpleName
-  obtain ⟨_, s1, e1, h1, hp1, hr1, hsl1⟩ := setOpcode_tot h ho opIntNamePath (by decide)
-  refine bind_ex e1 ?_
-  have ho1 : obj < s1.tree.pool.size := by rw [hp1.links.size]; exact ho
-  obtain ⟨res, s2, e2, h2, hp2, hres, ⟨v, hv⟩⟩ := setNameValue_tot hd h1 ho1
-  refine bind_ex e2 ?_
-  have ho2 : obj < s2.tree.pool.size := by rw [hp2.links.size]; exact ho1
-  obtain ⟨a, s3, e3, ha, h3, hp3, hr3, _⟩ := finishSimpleArg_tot h2 ho2 res (by rw [hv, hsl1]; exact info_const.2.2.2.2.2.2.1)
-  refine ⟨a, s3, e3, by rw [ha], h3, (hp1.trans hp2).trans hp3, ?_⟩
-  unfold Prog at hres ⊢
-  rw [ha, hr3, ← hr1]; exact hres
-
 def IsNum (argType : Nat) : Prop :=
   argType = argTypeByteData ∨ argType = argTypeWordData ∨ argType = argTypeDwordData ∨ argType = argTypeQwordData
 
@@ -869,328 +579,7 @@ theorem prog_of_num {s s' : PState} {res : PRes} {n : Nat} (hn : 1 ≤ n)
   · exact Or.inl ⟨ho, by omega⟩
   · exact Or.inr hf
 
-/-- `parseSimpleArg(argType)`: one fresh detached object, its value set -/
-theorem parseSimpleArg_tot {d : Bytes} (hd : d.size + 1024 ≤ 4294967296) {s : PState} (h : FP d s)
-    (hsz : s.tree.pool.size < INV) (argType : Nat) :
-    ∃ a s', parseSimpleArg d argType s = .ok (a, s') ∧ FP d s' ∧ Fresh1 s s' ∧
-      ((a.1 = some s.tree.pool.size ∧ Prog s s' a.2 ∧
-          (IsNum argType → ∃ v, (slot s'.tree s.tree.pool.size).value = .u64 v)) ∨ a = (none, .failed)) := by
-  unfold parseSimpleArg
-  obtain ⟨s1, e1, h1, f1, hr1, _⟩ := newObject_step h 0 hsz (by decide) info_const.1
-  refine bind_ex e1 ?_
-  obtain ⟨off, s2, e2, h2, hR2, hs2⟩ := lex_step (rel_offset d) h1
-  refine bind_ex e2 ?_
-  have hr2 : s2.r = s1.r := hR2.2
-  have ht2 : s2.tree = s1.tree := by rw [hs2]
-  have hobj : s.tree.pool.size < s2.tree.pool.size := by rw [ht2, f1.size]; omega
-  obtain ⟨s3, e3, h3, hp3, _, hr3⟩ := upd_step h2 hobj (fun o => { o with amlOffset := off }) (by keeps_links) Iff.rfl
-    (h2.tree.info _ hobj)
-  refine bind_ex e3 ?_
-  have hobj3 : s.tree.pool.size < s3.tree.pool.size := by rw [hp3.links.size]; exact hobj
-  have f3 : Fresh1 s s3 := by
-    refine Fresh1.thenPay f1 ((PayOnly.ofLex _ hs2 (by rw [hr2]) (by rw [hr2]; exact Nat.le_refl _)).trans hp3)
-  have num : ∀ op n, 1 ≤ n → op ≠ pOpIntFreedObject → InfoOK (pOpcodeTableIndex op true) → IsNum argType →
-      ∃ a s', simpleNum d s.tree.pool.size op n s3 = .ok (a, s') ∧ FP d s' ∧ Fresh1 s s' ∧
-      ((a.1 = some s.tree.pool.size ∧ Prog s s' a.2 ∧
-          (IsNum argType → ∃ v, (slot s'.tree s.tree.pool.size).value = .u64 v)) ∨ a = (none, .failed)) := by
-    intro op n hn hop hinfo _
-    obtain ⟨a, s4, e4, ha, h4, hp4, hv, hres⟩ := simpleNum_tot h3 hobj3 op n hop hinfo
-    refine ⟨a, s4, e4, h4, f3.thenPay hp4, Or.inl ⟨ha, ?_, fun _ => hv⟩⟩
-    have := prog_of_num hn hres
-    unfold Prog at this ⊢
-    have h03 : s.r.offset ≤ s3.r.offset := f3.off
-    rcases this with ⟨ho, hl⟩ | hf
-    · exact Or.inl ⟨ho, by omega⟩
-    · exact Or.inr hf
-  split
-  · rename_i hc; exact num _ 1 (by omega) (by decide) info_const.2.1 (Or.inl hc)
-  · split
-    · rename_i hc; exact num _ 2 (by omega) (by decide) info_const.2.2.1 (Or.inr (Or.inl hc))
-    · split
-      · rename_i hc; exact num _ 4 (by omega) (by decide) info_const.2.2.2.1 (Or.inr (Or.inr (Or.inl hc)))
-      · split
-        · rename_i hc; exact num _ 8 (by omega) (by decide) info_const.2.2.2.2.1 (Or.inr (Or.inr (Or.inr hc)))
-        · rename_i n1 n2 n3 n4
-          have notNum : ¬ IsNum argType := by
-            intro hn; rcases hn with h | h | h | h <;> contradiction
-          split
-          · obtain ⟨a, s4, e4, ha, h4, hp4, hres⟩ := simpleString_tot h3 hobj3
-            refine ⟨a, s4, e4, h4, f3.thenPay hp4, Or.inl ⟨ha, ?_, fun hn => absurd hn notNum⟩⟩
-            unfold Prog at hres ⊢
-            have h03 : s.r.offset ≤ s3.r.offset := f3.off
-            rcases hres with ⟨ho, hl⟩ | hf
-            · exact Or.inl ⟨ho, by omega⟩
-            · exact Or.inr hf
-          · split
-            · obtain ⟨a, s4, e4, ha, h4, hp4, hres⟩ := simpleName_tot hd h3 hobj3
-              refine ⟨a, s4, e4, h4, f3.thenPay hp4, Or.inl ⟨ha, ?_, fun hn => absurd hn notNum⟩⟩
-              unfold Prog at hres ⊢
-              have h03 : s.r.offset ≤ s3.r.offset := f3.off
-              rcases hres with ⟨ho, hl⟩ | hf
-              · exact Or.inl ⟨ho, by omega⟩
-              · exact Or.inr hf
-            · exact pure_ex ⟨h3, f3, Or.inr rfl⟩
-
-/-! ## field lists -/
-
-theorem setNameByte_tot {d : Bytes} {s : PState} (h : FP d s) {field : Nat} (hf : field < s.tree.pool.size) (i : Nat) (b : UInt8) :
-    ∃ a s', setNameByte field i b s = .ok (a, s') ∧ FP d s' ∧ PayOnly field s s' ∧ s'.r = s.r := by
-  unfold setNameByte
-  obtain ⟨s1, e1, h1, hp1, _, hr1⟩ := upd_step h hf
-    (fun o => { o with name := Name.ofList ((o.name.toList.take i) ++ [b] ++ (o.name.toList.drop (i+1))) })
-    (by keeps_links) Iff.rfl (h.tree.info field hf)
-  exact ⟨(), s1, e1, h1, hp1, hr1⟩
-
-theorem readFieldName_tot {d : Bytes} {field : Nat} (n : Nat) : ∀ (i : Nat) {s : PState}, FP d s → field < s.tree.pool.size →
-    ∃ b s', readFieldName d field n i s = .ok (b, s') ∧ FP d s' ∧ PayOnly field s s' ∧
-      (b = true → s'.r.offset = s.r.offset + n) := by
-  induction n with
-  | zero =>
-    intro i s h hf
-    unfold readFieldName
-    exact pure_ex ⟨h, PayOnly.refl _ _, fun _ => rfl⟩
-  | succ n ih =>
-    intro i s h hf
-    unfold readFieldName
-    obtain ⟨ob, s1, e1, h1, hR, hs1⟩ := lex_step (rel_readByte d) h
-    refine bind_ex e1 ?_
-    have ht1 : s1.tree = s.tree := by rw [hs1]
-    have hf1 : field < s1.tree.pool.size := by rw [ht1]; exact hf
-    rcases hR with ⟨hn, hr, _⟩ | ⟨b, hb, hr, hlt⟩
-    · subst hn
-      obtain ⟨_, s2, e2, h2, hp2, hr2⟩ := setNameByte_tot h1 hf1 i 0
-      refine bind_ex e2 (pure_ex ⟨h2, ?_, fun hc => by cases hc⟩)
-      exact (PayOnly.ofLex field hs1 (by rw [hr]) (by rw [hr]; exact Nat.le_refl _)).trans hp2
-    · subst hb
-      obtain ⟨_, s2, e2, h2, hp2, hr2⟩ := setNameByte_tot h1 hf1 i b
-      refine bind_ex e2 ?_
-      have hf2 : field < s2.tree.pool.size := by rw [hp2.links.size]; exact hf1
-      obtain ⟨b', s3, e3, h3, hp3, hoff⟩ := ih (i + 1) h2 hf2
-      refine ⟨b', s3, e3, h3, ?_, ?_⟩
-      · exact ((PayOnly.ofLex field hs1 (by rw [hr]) (by rw [hr]; show s.r.offset ≤ s.r.offset + 1; omega)).trans hp2).trans hp3
-      · intro hb'
-        rw [hoff hb', hr2, hr]
-        show s.r.offset + 1 + n = s.r.offset + (n + 1)
-        omega
-
-/-- steps that leave both stacks alone: the reader goes back at most `b` bytes, at most `m` objects
-are pushed, parents of existing objects are untouched -/
-structure GrowE (b m : Nat) (s s' : PState) : Prop where
-  offb : s.r.offset ≤ s'.r.offset + b
-  pool : s.tree.pool.size ≤ s'.tree.pool.size
-  poolUp : s'.tree.pool.size ≤ s.tree.pool.size + m
-  oldP : ∀ x, x < s.tree.pool.size → C13.P s'.tree x = C13.P s.tree x
-  scope : s'.scopeStack = s.scopeStack
-  pkg : s'.pkgEndStack = s.pkgEndStack
-  same : s'.allBlocks = s.allBlocks ∧ s'.tableHandle = s.tableHandle ∧ s'.streamEnd = s.streamEnd
-
-theorem GrowE.refl (s : PState) : GrowE 0 0 s s :=
-  ⟨by omega, Nat.le_refl _, by omega, fun _ _ => rfl, rfl, rfl, rfl, rfl, rfl⟩
-
-theorem GrowE.trans {b1 m1 b2 m2 : Nat} {a b c : PState} (h1 : GrowE b1 m1 a b) (h2 : GrowE b2 m2 b c) :
-    GrowE (b1 + b2) (m1 + m2) a c :=
-  ⟨by have := h1.offb; have := h2.offb; omega, Nat.le_trans h1.pool h2.pool, by have := h1.poolUp; have := h2.poolUp; omega,
-   fun x hx => by rw [h2.oldP x (Nat.lt_of_lt_of_le hx h1.pool), h1.oldP x hx], by rw [h2.scope, h1.scope],
-   by rw [h2.pkg, h1.pkg], ⟨by rw [h2.same.1, h1.same.1], by rw [h2.same.2.1, h1.same.2.1], by rw [h2.same.2.2, h1.same.2.2]⟩⟩
-
-theorem GrowE.weaken {b m b' m' : Nat} {a c : PState} (h : GrowE b m a c) (hb : b ≤ b') (hm : m ≤ m') : GrowE b' m' a c :=
-  ⟨by have := h.offb; omega, h.pool, by have := h.poolUp; omega, h.oldP, h.scope, h.pkg, h.same⟩
-
-theorem PayOnly.growE {obj : Nat} {s s' : PState} (h : PayOnly obj s s') : GrowE 0 0 s s' :=
-  ⟨by have := h.off; omega, by rw [h.links.size]; exact Nat.le_refl _, by rw [h.links.size]; omega,
-   fun x _ => h.links.p x, h.scope, h.pkg, h.same⟩
-
-theorem Fresh1.growE {s s' : PState} (h : Fresh1 s s') : GrowE 0 1 s s' :=
-  ⟨by have := h.off; omega, by rw [h.size]; omega, by rw [h.size]; omega,
-   fun x hx => by unfold C13.P; rw [h.old x hx], h.scope, h.pkg, h.same⟩
-
-/-- a reader-only step -/
-theorem GrowE.ofLex {s s1 : PState} (b : Nat) (hs1 : s1 = { s with r := s1.r }) (ho : s.r.offset ≤ s1.r.offset + b) :
-    GrowE b 0 s s1 := by
-  have ht : s1.tree = s.tree := by rw [hs1]
-  refine ⟨ho, by rw [ht]; exact Nat.le_refl _, by rw [ht]; omega, fun x _ => by rw [ht], by rw [hs1], by rw [hs1], ?_⟩
-  rw [hs1]; exact ⟨rfl, rfl, rfl⟩
-
-/-- turn equal-stack growth without backward movement into `Grow` -/
-theorem GrowE.grow {m : Nat} {s s' : PState} (h : GrowE 0 m s s') : Grow m 0 s s' :=
-  ⟨by have := h.offb; omega, h.pool, by have := h.poolUp; have := h.offb; omega, h.oldP,
-   by rw [h.scope]; exact Nat.le_refl _, by rw [h.pkg]; exact Nat.le_refl _, by rw [h.scope, h.pkg]; omega,
-   by rw [h.pkg]; have := h.offb; omega, h.same⟩
-
-/-- what the field-list loop needs to know about its object and its insertion point -/
-def FieldInv (s : PState) (curObj : Nat) (st : FieldSt) : Prop :=
-  curObj < s.tree.pool.size ∧ st.appendAfter < s.tree.pool.size ∧ C13.P s.tree curObj ≠ INV ∧
-  C13.P s.tree st.appendAfter = C13.P s.tree curObj
-
-theorem FieldInv.mono {s s' : PState} {curObj : Nat} {st : FieldSt} {b m : Nat} (h : FieldInv s curObj st)
-    (g : GrowE b m s s') : FieldInv s' curObj st :=
-  ⟨Nat.lt_of_lt_of_le h.1 g.pool, Nat.lt_of_lt_of_le h.2.1 g.pool, by rw [g.oldP _ h.1]; exact h.2.2.1,
-   by rw [g.oldP _ h.2.1, g.oldP _ h.1]; exact h.2.2.2⟩
-
-/-- `case 0x00: // ReservedField` -/
-theorem fieldReserved_tot {d : Bytes} {s : PState} (h : FP d s) (st : FieldSt) :
-    ∃ a s', fieldReserved d st s = .ok (a, s') ∧ FP d s' ∧ GrowE 0 0 s s' ∧
-      (∀ st', a = .inr st' → st'.appendAfter = st.appendAfter ∧ s.r.offset < s'.r.offset) := by
-  unfold fieldReserved
-  obtain ⟨pr, s1, e1, h1, hR, hs1⟩ := lex_step (rel_parsePkgLength d) h
-  refine bind_ex e1 ?_
-  rcases hR with ⟨hf, hr⟩ | ⟨hok, hp, hlt, _, _⟩
-  · rw [if_pos hf]
-    exact pure_ex ⟨h1, GrowE.ofLex 0 hs1 (by rw [hr]; omega), fun st' hc => by cases hc⟩
-  · rw [if_neg (by rw [hok]; decide)]
-    refine pure_ex ⟨h1, GrowE.ofLex 0 hs1 (by omega), ?_⟩
-    intro st' hc
-    cases hc
-    exact ⟨rfl, hlt⟩
-
-/-- one `parseNumConstant(1)` step of the access-field cases -/
-theorem num1_step {d : Bytes} {s : PState} (h : FP d s) :
-    ∃ v s1, lex (parseNumConstant d 1) s = .ok (v, s1) ∧ FP d s1 ∧ s1 = { s with r := s1.r } ∧
-      s.r.offset ≤ s1.r.offset ∧ ((v.2 = .ok ∧ s1.r.offset = s.r.offset + 1) ∨ v.2 = .failed) := by
-  obtain ⟨v, s1, e1, h1, hR, hs1⟩ := lex_step (rel_parseNumConstant d 1) h
-  exact ⟨v, s1, e1, h1, hs1, hR.2.1, hR.2.2.2⟩
-
-theorem fieldAccess_tot {d : Bytes} {s : PState} (h : FP d s) (st : FieldSt) :
-    ∃ a s', fieldAccess d st s = .ok (a, s') ∧ FP d s' ∧ GrowE 0 0 s s' ∧
-      (∀ st', a = .inr st' → st'.appendAfter = st.appendAfter ∧ s.r.offset < s'.r.offset) := by
-  unfold fieldAccess
-  obtain ⟨v1, s1, e1, h1, hs1, hle1, hres1⟩ := num1_step h
-  refine bind_ex e1 ?_
-  have g1 := GrowE.ofLex 0 hs1 (by omega)
-  rcases hres1 with ⟨hok1, hoff1⟩ | hf1
-  · rw [if_neg (by rw [hok1]; decide)]
-    obtain ⟨v2, s2, e2, h2, hs2, hle2, hres2⟩ := num1_step h1
-    refine bind_ex e2 ?_
-    have g2 := g1.trans (GrowE.ofLex 0 hs2 (by omega))
-    rcases hres2 with ⟨hok2, hoff2⟩ | hf2
-    · rw [if_neg (by rw [hok2]; decide)]
-      refine pure_ex ⟨h2, g2, ?_⟩
-      intro st' hc; cases hc
-      exact ⟨rfl, by omega⟩
-    · rw [if_pos hf2]
-      exact pure_ex ⟨h2, g2, fun st' hc => by cases hc⟩
-  · rw [if_pos hf1]
-    exact pure_ex ⟨h1, g1, fun st' hc => by cases hc⟩
-
-theorem fieldExtAccess_tot {d : Bytes} {s : PState} (h : FP d s) (st : FieldSt) :
-    ∃ a s', fieldExtAccess d st s = .ok (a, s') ∧ FP d s' ∧ GrowE 0 0 s s' ∧
-      (∀ st', a = .inr st' → st'.appendAfter = st.appendAfter ∧ s.r.offset < s'.r.offset) := by
-  unfold fieldExtAccess
-  obtain ⟨v1, s1, e1, h1, hs1, hle1, hres1⟩ := num1_step h
-  refine bind_ex e1 ?_
-  have g1 := GrowE.ofLex 0 hs1 (by omega)
-  rcases hres1 with ⟨hok1, hoff1⟩ | hf1
-  · rw [if_neg (by rw [hok1]; decide)]
-    obtain ⟨v2, s2, e2, h2, hs2, hle2, hres2⟩ := num1_step h1
-    refine bind_ex e2 ?_
-    have g2 := g1.trans (GrowE.ofLex 0 hs2 (by omega))
-    rcases hres2 with ⟨hok2, hoff2⟩ | hf2
-    · rw [if_neg (by rw [hok2]; decide)]
-      obtain ⟨v3, s3, e3, h3, hs3, hle3, hres3⟩ := num1_step h2
-      refine bind_ex e3 ?_
-      have g3 := g2.trans (GrowE.ofLex 0 hs3 (by omega))
-      rcases hres3 with ⟨hok3, hoff3⟩ | hf3
-      · rw [if_neg (by rw [hok3]; decide)]
-        refine pure_ex ⟨h3, g3, ?_⟩
-        intro st' hc; cases hc
-        exact ⟨rfl, by omega⟩
-      · rw [if_pos hf3]
-        exact pure_ex ⟨h3, g3, fun st' hc => by cases hc⟩
-    · rw [if_pos hf2]
-      exact pure_ex ⟨h2, g2, fun st' hc => by cases hc⟩
-  · rw [if_pos hf1]
-    exact pure_ex ⟨h1, g1, fun st' hc => by cases hc⟩
-
 theorem derefP_some_ex {s : PState} (i : Nat) : derefP (some i) s = .ok (i, s) := rfl
-
-/-- `default:` a named field -/
-theorem fieldNamed_tot {d : Bytes} {s : PState} (h : FP d s) (curObj : Nat) (st : FieldSt) (hfi : FieldInv s curObj st)
-    (hsz : s.tree.pool.size < INV) :
-    ∃ a s', fieldNamed d curObj st s = .ok (a, s') ∧ FP d s' ∧ GrowE 1 1 s s' ∧
-      (∀ st', a = .inr st' → FieldInv s' curObj st' ∧ s.r.offset + 3 < s'.r.offset) := by
-  unfold fieldNamed
-  obtain ⟨_, s1, e1, h1, hR1, hs1⟩ := lex_step (rel_unreadByte d) h
-  refine bind_ex e1 ?_
-  have g1 : GrowE 1 0 s s1 := GrowE.ofLex 1 hs1 (by have := hR1.2; omega)
-  have hsz1 : s1.tree.pool.size < INV := by rw [hs1]; exact hsz
-  obtain ⟨s2, e2, h2, f2, hr2, _⟩ := newObject_step h1 opIntNamedField hsz1 (by decide) info_const.2.2.2.2.2.2.2.2.2.2.1
-  refine bind_ex e2 ?_
-  have hn : s1.tree.pool.size = s.tree.pool.size := by rw [hs1]
-  obtain ⟨off, s3, e3, h3, hR3, hs3⟩ := lex_step (rel_offset d) h2
-  refine bind_ex e3 ?_
-  have hr3 : s3.r = s2.r := hR3.2
-  have ht3 : s3.tree = s2.tree := by rw [hs3]
-  have hf3 : s1.tree.pool.size < s3.tree.pool.size := by rw [ht3, f2.size]; omega
-  obtain ⟨s4, e4, h4, hp4, _, hr4⟩ := upd_step h3 hf3 (fun o => { o with amlOffset := off }) (by keeps_links) Iff.rfl
-    (h3.tree.info _ hf3)
-  refine bind_ex e4 ?_
-  have hf4 : s1.tree.pool.size < s4.tree.pool.size := by rw [hp4.links.size]; exact hf3
-  obtain ⟨b, s5, e5, h5, hp5, hoff5⟩ := readFieldName_tot (d := d) (field := s1.tree.pool.size) Gen.C12.amlNameLen 0 h4 hf4
-  refine bind_ex e5 ?_
-  have f5 : Fresh1 s1 s5 :=
-    f2.thenPay (((PayOnly.ofLex _ hs3 (by rw [hr3]) (by rw [hr3]; exact Nat.le_refl _)).trans hp4).trans hp5)
-  have g5 : GrowE 1 1 s s5 := g1.trans f5.growE
-  cases b with
-  | false => exact pure_ex ⟨h5, g5, fun st' hc => by cases hc⟩
-  | true =>
-    have ho5 := hoff5 rfl
-    simp only [Bool.not_true, Bool.false_eq_true, ↓reduceIte]
-    obtain ⟨pr, s6, e6, h6, hR6, hs6⟩ := lex_step (rel_parsePkgLength d) h5
-    refine bind_ex e6 ?_
-    have ht6 : s6.tree = s5.tree := by rw [hs6]
-    rcases hR6 with ⟨hf, hr⟩ | ⟨hok, hp, hlt, _, _⟩
-    · rw [if_pos (by rw [hf]; decide)]
-      exact pure_ex ⟨h6, g5.trans (GrowE.ofLex 0 hs6 (by rw [hr]; omega)), fun st' hc => by cases hc⟩
-    · rw [if_neg (by rw [hok]; decide)]
-      have g6 : GrowE 1 1 s s6 := g5.trans (GrowE.ofLex 0 hs6 (by omega))
-      have hc6 : curObj < s6.tree.pool.size := Nat.lt_of_lt_of_le hfi.1 g6.pool
-      refine bind_ex (getObj_ex hc6) ?_
-      have hfield6 : s1.tree.pool.size < s6.tree.pool.size := by rw [ht6, f5.size]; omega
-      obtain ⟨s7, e7, h7, hp7, _, hr7⟩ := upd_step h6 hfield6
-        (fun o => { o with value := Val.field st.nextFieldOffset pr.1 st.accessLength st.accessType st.accessAttrib st.lockType st.updateType st.connectionIndex (slot s6.tree curObj).index })
-        (by keeps_links) Iff.rfl (h6.tree.info _ hfield6)
-      refine bind_ex e7 ?_
-      have g7 : GrowE 1 1 s s7 := g6.trans hp7.growE
-      have fi7 : FieldInv s7 curObj st := hfi.mono g7
-      -- the parent of curObj
-      have hpar : C13.P s7.tree curObj = (slot s6.tree curObj).parentIndex := by
-        rw [hp7.links.p]; rfl
-      have hparlt : C13.P s7.tree curObj < curObj := h7.tree.mono curObj fi7.1 fi7.2.2.1
-      have hparsz : C13.P s7.tree curObj < s7.tree.pool.size := by have := fi7.1; omega
-      rw [← hpar]
-      refine bind_ex (objectAt_live_ex h7 hparsz) ?_
-      refine bind_ex (derefP_some_ex _) ?_
-      -- the field is detached and newer than the parent
-      have hfield7 : s1.tree.pool.size < s7.tree.pool.size := by rw [hp7.links.size]; exact hfield6
-      have hpf : C13.P s7.tree s1.tree.pool.size = INV := by
-        rw [hp7.links.p, ht6]; exact f5.pn
-      have hlt : C13.P s7.tree curObj < s1.tree.pool.size := by rw [hn]; have := hfi.1; omega
-      obtain ⟨t', e8, ht', _, hP8⟩ := treeOK_appendAfter h7.tree hlt hfield7 hpf fi7.2.1 fi7.2.2.2
-      have sz8 : t'.pool.size = s7.tree.pool.size := (appendAfter_samePay e8).size
-      refine bind_ex (tree_ex e8) (pure_ex ⟨h7.withTree ht' (by rw [sz8]; exact Nat.le_refl _), ?_, ?_⟩)
-      · refine ⟨g7.offb, by show s.tree.pool.size ≤ t'.pool.size; rw [sz8]; exact g7.pool,
-          by show t'.pool.size ≤ _; rw [sz8]; exact g7.poolUp, ?_, g7.scope, g7.pkg, g7.same⟩
-        intro x hx
-        show C13.P t' x = _
-        rw [hP8, if_neg (by rw [hn]; omega)]
-        exact g7.oldP x hx
-      · intro st' hc
-        cases hc
-        refine ⟨⟨?_, ?_, ?_, ?_⟩, ?_⟩
-        · show curObj < t'.pool.size; rw [sz8]; exact fi7.1
-        · show s1.tree.pool.size < t'.pool.size; rw [sz8]; exact hfield7
-        · show C13.P t' curObj ≠ INV
-          rw [hP8, if_neg (by rw [hn]; have := hfi.1; omega)]; exact fi7.2.2.1
-        · show C13.P t' s1.tree.pool.size = C13.P t' curObj
-          rw [hP8, hP8, if_pos rfl, if_neg (by rw [hn]; have := hfi.1; omega)]
-        · show s.r.offset + 3 < s7.r.offset
-          have e1' : s1.r.offset = s.r.offset - 1 := hR1.2
-          have : s4.r.offset = s1.r.offset := by rw [hr4, hr3, hr2]
-          have : s5.r.offset = s4.r.offset + Gen.C12.amlNameLen := ho5
-          have : Gen.C12.amlNameLen = 4 := rfl
-          have : s7.r = s6.r := hr7
-          rw [this]
-          omega
 
 theorem rel_parseByteListRaw (d : Bytes) (n : Nat) : LexRel d (parseByteListRaw d n) (fun r _ r' =>
     r'.pkgEnd = r.pkgEnd ∧ r'.offset = (if u32 (r.offset + n) > d.size then d.size else u32 (r.offset + n))) := by
@@ -1212,687 +601,22 @@ theorem rel_parseByteListRaw (d : Bytes) (n : Nat) : LexRel d (parseByteListRaw 
     apply wp_bind; apply wp_setOffset
     exact wp_pure ⟨hi, rfl, rfl⟩
 
-/-- `parseByteList(obj, n)` when the `n` bytes fit below `pkgEnd` -/
-theorem parseByteList_tot {d : Bytes} (hd : d.size + 1024 ≤ 4294967296) {s : PState} (h : FP d s) {obj : Nat}
-    (ho : obj < s.tree.pool.size) (n : Nat) (hfit : s.r.offset + n ≤ s.r.pkgEnd) :
-    ∃ a s', parseByteList d obj n s = .ok (a, s') ∧ FP d s' ∧ PayOnly obj s s' ∧ s'.r.offset = s.r.offset + n := by
-  unfold parseByteList
-  have hl : KeepsLive s.tree obj (fun o => { o with opcode := opIntByteList }) := by
-    unfold KeepsLive
-    have hne : opIntByteList ≠ pOpIntFreedObject := by decide
-    exact ⟨fun hc => absurd hc hne, fun hc => absurd hc (live_opcode_ne h.tree ho)⟩
-  obtain ⟨s1, e1, h1, hp1, _, hr1⟩ := upd_step h ho (fun o => { o with opcode := opIntByteList }) (by keeps_links) hl
-    (h.tree.info obj ho)
-  refine bind_ex e1 ?_
-  have ho1 : obj < s1.tree.pool.size := by rw [hp1.links.size]; exact ho
-  obtain ⟨s2, e2, h2, hp2, _, hr2⟩ := upd_step h1 ho1
-    (fun o => { o with infoIndex := pOpcodeTableIndex opIntByteList true }) (by keeps_links) Iff.rfl
-    (by dsimp only; exact info_const.2.2.2.2.2.2.2.1)
-  refine bind_ex e2 ?_
-  obtain ⟨sl, s3, e3, h3, hR3, hs3⟩ := lex_step (rel_parseByteListRaw d n) h2
-  refine bind_ex e3 ?_
-  have ht3 : s3.tree = s2.tree := by rw [hs3]
-  have ho3 : obj < s3.tree.pool.size := by rw [ht3, hp2.links.size]; exact ho1
-  have hoff3 : s3.r.offset = s.r.offset + n := by
-    rw [hR3.2, hr2, hr1]
-    have h1' := h.inv.1; have h2' := h.inv.2
-    have : u32 (s.r.offset + n) = s.r.offset + n := by unfold u32; omega
-    rw [this]; split <;> omega
-  obtain ⟨s4, e4, h4, hp4, _, hr4⟩ := upd_step h3 ho3 (fun o => { o with value := sliceVal sl }) (by keeps_links) Iff.rfl
-    (h3.tree.info obj ho3)
-  refine ⟨(), s4, e4, h4, ?_, by rw [hr4, hoff3]⟩
-  refine ((hp1.trans hp2).trans (PayOnly.ofLex obj hs3 hR3.1 ?_)).trans hp4
-  rw [hoff3, hr2, hr1]; omega
-
-/-- `append(obj, arg)` as a step -/
-theorem append_step {d : Bytes} {s : PState} (h : FP d s) {obj arg : Nat} (hlt : obj < arg) (ha : arg < s.tree.pool.size)
-    (hp : C13.P s.tree arg = INV) :
-    ∃ s1, tree (·.append obj arg) s = .ok ((), s1) ∧ FP d s1 ∧ s1 = { s with tree := s1.tree } ∧
-      s1.tree.pool.size = s.tree.pool.size ∧ SamePay s.tree s1.tree ∧
-      (∀ x, C13.P s1.tree x = if x = arg then obj else C13.P s.tree x) ∧ La s1.tree obj = arg := by
-  obtain ⟨t', e, ht', sp, hP, hLa, _, _⟩ := treeOK_append h.tree hlt ha hp
-  refine ⟨_, tree_ex e, h.withTree ht' (by rw [sp.size]; exact Nat.le_refl _), rfl, sp.size, sp, hP, ?_⟩
-  show La t' obj = arg
-  rw [hLa]; simp
-
-/-- growth up to `s1`, then an append of an object that did not exist in the base state -/
-theorem GrowE.thenAppend {b m : Nat} {s s1 s2 : PState} (g : GrowE b m s s1) {obj arg : Nat}
-    (hs2 : s2 = { s1 with tree := s2.tree }) (hsz : s2.tree.pool.size = s1.tree.pool.size)
-    (hP : ∀ x, C13.P s2.tree x = if x = arg then obj else C13.P s1.tree x) (hnew : s.tree.pool.size ≤ arg) :
-    GrowE b m s s2 := by
-  have hr : s2.r = s1.r := by rw [hs2]
-  refine ⟨by rw [hr]; exact g.offb, by rw [hsz]; exact g.pool, by rw [hsz]; exact g.poolUp, ?_, by rw [hs2]; exact g.scope,
-    by rw [hs2]; exact g.pkg, by rw [hs2]; exact g.same⟩
-  intro x hx
-  rw [hP, if_neg (by omega)]
-  exact g.oldP x hx
-
-theorem connName_tot {d : Bytes} (hd : d.size + 1024 ≤ 4294967296) {s : PState} (h : FP d s) (hsz : s.tree.pool.size < INV) :
-    ∃ a s', connName d s = .ok (a, s') ∧ FP d s' ∧ GrowE 1 1 s s' ∧
-      (∀ c, a = .inr c → c = s.tree.pool.size ∧ c < s'.tree.pool.size ∧ C13.P s'.tree c = INV ∧
-        s.r.offset ≤ s'.r.offset) := by
-  unfold connName
-  obtain ⟨_, s1, e1, h1, hR1, hs1⟩ := lex_step (rel_unreadByte d) h
-  refine bind_ex e1 ?_
-  have g1 : GrowE 1 0 s s1 := GrowE.ofLex 1 hs1 (by have := hR1.2; omega)
-  have hn : s1.tree.pool.size = s.tree.pool.size := by rw [hs1]
-  obtain ⟨s2, e2, h2, f2, hr2, _⟩ := newObject_step h1 opIntNamePath (by rw [hn]; exact hsz) (by decide) info_const.2.2.2.2.2.2.1
-  refine bind_ex e2 ?_
-  obtain ⟨off, s3, e3, h3, hR3, hs3⟩ := lex_step (rel_offset d) h2
-  refine bind_ex e3 ?_
-  have hr3 : s3.r = s2.r := hR3.2
-  have ht3 : s3.tree = s2.tree := by rw [hs3]
-  have hf3 : s1.tree.pool.size < s3.tree.pool.size := by rw [ht3, f2.size]; omega
-  obtain ⟨s4, e4, h4, hp4, _, hr4⟩ := upd_step h3 hf3 (fun o => { o with amlOffset := off }) (by keeps_links) Iff.rfl
-    (h3.tree.info _ hf3)
-  refine bind_ex e4 ?_
-  have hf4 : s1.tree.pool.size < s4.tree.pool.size := by rw [hp4.links.size]; exact hf3
-  obtain ⟨res, s5, e5, h5, hp5, hprog, _⟩ := setNameValue_tot hd h4 hf4
-  refine bind_ex e5 ?_
-  have f5 : Fresh1 s1 s5 :=
-    f2.thenPay (((PayOnly.ofLex _ hs3 (by rw [hr3]) (by rw [hr3]; exact Nat.le_refl _)).trans hp4).trans hp5)
-  have g5 : GrowE 1 1 s s5 := g1.trans f5.growE
-  by_cases hres : res = .ok
-  · rw [if_neg (by rw [hres]; decide)]
-    refine pure_ex ⟨h5, g5, ?_⟩
-    intro c hc
-    cases hc
-    refine ⟨hn, by rw [f5.size]; omega, f5.pn, ?_⟩
-    rcases hprog with ⟨_, hlt⟩ | hf
-    · have : s4.r.offset = s1.r.offset := by rw [hr4, hr3, hr2]
-      have := hR1.2
-      omega
-    · rw [hres] at hf; cases hf
-  · rw [if_pos hres]
-    exact pure_ex ⟨h5, g5, fun c hc => by cases hc⟩
-
-/-- reader-only: "Read data length" of a Connection buffer -/
-theorem connBufferLen_tot {d : Bytes} (hd : d.size + 1024 ≤ 4294967296) {s : PState} (h : FP d s) (o p : Nat) :
-    ∃ a s', connBufferLen d o p s = .ok (a, s') ∧ FP d s' ∧ s' = { s with r := s'.r } ∧ s.r.offset ≤ s'.r.offset := by
-  unfold connBufferLen
-  obtain ⟨b, s1, e1, h1, hR1, hs1⟩ := lex_step (rel_setPkgEnd d (u32 (o + p))) h
-  refine bind_ex e1 ?_
-  have ho1 : s1.r.offset = s.r.offset := hR1.1
-  cases b with
-  | false => exact pure_ex ⟨h1, hs1, by omega⟩
-  | true =>
-    simp only [Bool.not_true, Bool.false_eq_true, ↓reduceIte]
-    obtain ⟨opr, s2, e2, h2, hR2, hs2⟩ := lex_step (rel_nextOpcode d hd) h1
-    refine bind_ex e2 ?_
-    have hs2' : s2 = { s with r := s2.r } := by rw [hs2, hs1]
-    have ho2 : s1.r.offset ≤ s2.r.offset := by
-      rcases hR2 with ⟨_, _, hr⟩ | ⟨_, _, _, _, hlt, _⟩
-      · rw [hr]; exact Nat.le_refl _
-      · omega
-    by_cases hres : opr.2 = .ok
-    · rw [if_neg (by rw [hres]; decide)]
-      have fin : ∀ (dl : Nat × PRes) (s3 : PState), FP d s3 → s3 = { s with r := s3.r } → s.r.offset ≤ s3.r.offset →
-          ∃ a s', (if dl.2 = .failed then pure (.inl dl.2) else pure (.inr dl.1) : P (Sum PRes Nat)) s3 = .ok (a, s') ∧
-            FP d s' ∧ s' = { s with r := s'.r } ∧ s.r.offset ≤ s'.r.offset := by
-        intro dl s3 h3 hs3 ho3
-        split
-        · exact pure_ex ⟨h3, hs3, ho3⟩
-        · exact pure_ex ⟨h3, hs3, ho3⟩
-      have numc : ∀ n, ∃ a s', ((lex (parseNumConstant d n) : P (Nat × PRes)) >>= fun dl =>
-          (if dl.2 = .failed then pure (.inl dl.2) else pure (.inr dl.1) : P (Sum PRes Nat))) s2 = .ok (a, s') ∧
-            FP d s' ∧ s' = { s with r := s'.r } ∧ s.r.offset ≤ s'.r.offset := by
-        intro n
-        obtain ⟨dl, s3, e3, h3, hR3, hs3⟩ := lex_step (rel_parseNumConstant d n) h2
-        refine bind_ex e3 (fin dl s3 h3 (by rw [hs3, hs2']) (by have := hR3.2.1; omega))
-      split
-      · exact numc 1
-      · split
-        · exact numc 2
-        · split
-          · exact numc 4
-          · exact bind_ex (s1 := s2) rfl (fin (0, PRes.ok) s2 h2 hs2' (by omega))
-    · rw [if_pos hres]
-      exact pure_ex ⟨h2, hs2', by omega⟩
-
 theorem reader_ex (s : PState) : reader s = .ok (s.r, s) := rfl
 
-/-- the tail of the Connection-buffer case -/
-theorem connBufferFinish_tot {d : Bytes} (hd : d.size + 268435456 ≤ 4294967296) {s : PState} (h : FP d s)
-    (hsz : s.tree.pool.size < INV) (origPkgEnd origOffset pkgLen dataLen : Nat) (hpl : pkgLen < 268435456)
-    (hoo : origOffset ≤ d.size) :
-    ∃ a s', connBufferFinish d origPkgEnd origOffset pkgLen dataLen s = .ok (a, s') ∧ FP d s' ∧
-      GrowE (s.r.offset - origOffset) 1 s s' ∧
-      (∀ c, a = .inr c → c = s.tree.pool.size ∧ c < s'.tree.pool.size ∧ C13.P s'.tree c = INV ∧
-        origOffset ≤ s'.r.offset) := by
-  have hd' : d.size + 1024 ≤ 4294967296 := by omega
-  unfold connBufferFinish
-  refine bind_ex (reader_ex s) ?_
-  by_cases hfit : s.r.offset + dataLen > s.r.pkgEnd
-  · rw [if_pos hfit]
-    exact pure_ex ⟨h, (GrowE.refl s).weaken (by omega) (by omega), fun c hc => by cases hc⟩
-  · rw [if_neg hfit]
-    obtain ⟨s1, e1, h1, f1, hr1, _⟩ := newObject_step h opIntByteList hsz (by decide) info_const.2.2.2.2.2.2.2.1
-    refine bind_ex e1 ?_
-    have hc1 : s.tree.pool.size < s1.tree.pool.size := by rw [f1.size]; omega
-    obtain ⟨s2, e2, h2, hp2, _, hr2⟩ := upd_step h1 hc1 (fun o => { o with amlOffset := origOffset }) (by keeps_links) Iff.rfl
-      (h1.tree.info _ hc1)
-    refine bind_ex e2 ?_
-    have hc2 : s.tree.pool.size < s2.tree.pool.size := by rw [hp2.links.size]; exact hc1
-    have hle : u32 dataLen ≤ dataLen := Nat.mod_le _ _
-    obtain ⟨_, s3, e3, h3, hp3, hoff3⟩ := parseByteList_tot hd' h2 hc2 (u32 dataLen) (by rw [hr2, hr1]; omega)
-    refine bind_ex e3 ?_
-    obtain ⟨_, s4, e4, h4, hR4, hs4⟩ := lex_step (rel_setPkgEnd d origPkgEnd) h3
-    refine bind_ex e4 ?_
-    obtain ⟨_, s5, e5, h5, hR5, hs5⟩ := lex_step (rel_setOffset d (u32 (origOffset + pkgLen))) h4
-    refine bind_ex e5 ?_
-    have f3 : Fresh1 s s3 := f1.thenPay (hp2.trans hp3)
-    have hfin : origOffset ≤ s5.r.offset := by
-      rw [hR5.2]
-      have : u32 (origOffset + pkgLen) = origOffset + pkgLen := by unfold u32; omega
-      rw [this]; split <;> omega
-    have g5 : GrowE (s.r.offset - origOffset) 1 s s5 := by
-      have g3 := f3.growE
-      have ht4 : s4.tree = s3.tree := by rw [hs4]
-      have ht5 : s5.tree = s4.tree := by rw [hs5]
-      refine ⟨by omega, by rw [ht5, ht4]; exact g3.pool, by rw [ht5, ht4]; exact g3.poolUp,
-        fun x hx => by rw [ht5, ht4]; exact g3.oldP x hx, by rw [hs5, hs4]; exact g3.scope, by rw [hs5, hs4]; exact g3.pkg,
-        by rw [hs5, hs4]; exact g3.same⟩
-    refine pure_ex ⟨h5, g5, ?_⟩
-    intro c hc
-    cases hc
-    have ht4 : s4.tree = s3.tree := by rw [hs4]
-    have ht5 : s5.tree = s4.tree := by rw [hs5]
-    exact ⟨rfl, by rw [ht5, ht4, f3.size]; omega, by rw [ht5, ht4]; exact f3.pn, hfin⟩
-
-/-- `case uint8(pOpBuffer):` of a Connection -/
-theorem connBuffer_tot {d : Bytes} (hd : d.size + 268435456 ≤ 4294967296) {s : PState} (h : FP d s)
-    (hsz : s.tree.pool.size < INV) :
-    ∃ a s', connBuffer d s = .ok (a, s') ∧ FP d s' ∧ GrowE 0 1 s s' ∧
-      (∀ c, a = .inr c → c = s.tree.pool.size ∧ c < s'.tree.pool.size ∧ C13.P s'.tree c = INV) := by
-  have hd' : d.size + 1024 ≤ 4294967296 := by omega
-  unfold connBuffer
-  refine bind_ex (reader_ex s) ?_
-  obtain ⟨pr, s1, e1, h1, ⟨hR1, hv1⟩, hs1⟩ := lex_step (rel_parsePkgLengthV d) h
-  refine bind_ex e1 ?_
-  have ht1 : s1.tree = s.tree := by rw [hs1]
-  have hoo : s.r.offset ≤ d.size := h.inv.1
-  have ho1 : s.r.offset ≤ s1.r.offset := by
-    rcases hR1 with ⟨_, hr⟩ | ⟨_, _, hlt, _, _⟩
-    · rw [hr]; exact Nat.le_refl _
-    · omega
-  have g1 : GrowE 0 0 s s1 := GrowE.ofLex 0 hs1 (by omega)
-  have conv : ∀ {s2 : PState} {a : Sum PRes Nat} {s' : PState}, GrowE 0 0 s s2 →
-      GrowE (s2.r.offset - s.r.offset) 1 s2 s' →
-      (∀ c, a = .inr c → c = s2.tree.pool.size ∧ c < s'.tree.pool.size ∧ C13.P s'.tree c = INV ∧ s.r.offset ≤ s'.r.offset) →
-      s2.tree.pool.size = s.tree.pool.size →
-      GrowE 0 1 s s' ∧ (∀ c, a = .inr c → c = s.tree.pool.size ∧ c < s'.tree.pool.size ∧ C13.P s'.tree c = INV) := by
-    intro s2 a s' g2 gf hc hn
-    have gt := g2.trans gf
-    refine ⟨⟨?_, gt.pool, by have := gt.poolUp; omega, gt.oldP, gt.scope, gt.pkg, gt.same⟩, ?_⟩
-    · have := gf.offb; have := g2.offb; omega
-    · intro c hcc
-      obtain ⟨h1, h2, h3, _⟩ := hc c hcc
-      exact ⟨by rw [h1, hn], h2, h3⟩
-  by_cases hres : pr.2 = .ok
-  · rw [if_neg (by rw [hres]; decide)]
-    by_cases hpos : pr.1 > 0
-    · rw [if_pos hpos]
-      obtain ⟨a2, s2, e2, h2, hs2, ho2⟩ := connBufferLen_tot hd' h1 s.r.offset pr.1
-      refine bind_ex e2 ?_
-      have ht2 : s2.tree = s.tree := by rw [hs2, ht1]
-      cases a2 with
-      | inl res => exact pure_ex ⟨h2, (g1.trans (GrowE.ofLex 0 hs2 (by omega))).weaken (by omega) (by omega), fun c hc => by cases hc⟩
-      | inr dataLen =>
-        obtain ⟨a, s', e3, h3, g3, hc3⟩ := connBufferFinish_tot hd h2 (by rw [ht2]; exact hsz) s.r.pkgEnd s.r.offset pr.1 dataLen hv1 hoo
-        have := conv (g1.trans (GrowE.ofLex 0 hs2 (by omega))) g3 hc3 (by rw [ht2])
-        exact ⟨a, s', e3, h3, this.1, this.2⟩
-    · rw [if_neg hpos]
-      obtain ⟨a, s', e3, h3, g3, hc3⟩ := connBufferFinish_tot hd h1 (by rw [ht1]; exact hsz) s.r.pkgEnd s.r.offset pr.1 0 hv1 hoo
-      have := conv g1 g3 hc3 (by rw [ht1])
-      exact ⟨a, s', e3, h3, this.1, this.2⟩
-  · rw [if_pos hres]
-    exact pure_ex ⟨h1, g1.weaken (by omega) (by omega), fun c hc => by cases hc⟩
-
-/-- `case 0x02: // Connection` -/
-theorem fieldConnection_tot {d : Bytes} (hd : d.size + 268435456 ≤ 4294967296) {s : PState} (h : FP d s)
-    (curObj : Nat) (st : FieldSt) (hc : curObj < s.tree.pool.size) (hsz : s.tree.pool.size + 1 < INV) :
-    ∃ a s', fieldConnection d curObj st s = .ok (a, s') ∧ FP d s' ∧ GrowE 0 2 s s' ∧
-      (∀ st', a = .inr st' → st'.appendAfter = st.appendAfter ∧ s.r.offset < s'.r.offset) := by
-  have hd' : d.size + 1024 ≤ 4294967296 := by omega
-  unfold fieldConnection
-  obtain ⟨ob, s1, e1, h1, hR1, hs1⟩ := lex_step (rel_readByte d) h
-  refine bind_ex e1 ?_
-  have ht1 : s1.tree = s.tree := by rw [hs1]
-  rcases hR1 with ⟨hn, hr, _⟩ | ⟨b, hb, hr, hlt⟩
-  · subst hn
-    exact pure_ex ⟨h1, (GrowE.ofLex 0 hs1 (by rw [hr]; omega)).weaken (by omega) (by omega), fun st' hc => by cases hc⟩
-  · subst hb
-    have ho1 : s1.r.offset = s.r.offset + 1 := by rw [hr]
-    have g1 : GrowE 0 0 s s1 := GrowE.ofLex 0 hs1 (by omega)
-    dsimp only
-    obtain ⟨s2, e2, h2, f2, hr2, hnew2⟩ := newObject_step h1 opIntConnection (by rw [ht1]; omega) (by decide)
-      info_const.2.2.2.2.2.2.2.2.2.1
-    refine bind_ex e2 ?_
-    have hn1 : s1.tree.pool.size = s.tree.pool.size := by rw [ht1]
-    have hc2 : s1.tree.pool.size < s2.tree.pool.size := by rw [f2.size]; omega
-    refine bind_ex (getObj_ex hc2) ?_
-    have hcur2 : curObj < s1.tree.pool.size := by rw [hn1]; exact hc
-    obtain ⟨s3, e3, h3, hs3, hsz3, _, hP3, _⟩ := append_step h2 hcur2 hc2 f2.pn
-    refine bind_ex e3 ?_
-    have g3 : GrowE 0 1 s s3 := (g1.trans f2.growE).thenAppend hs3 hsz3 hP3 (by omega)
-    have hsz3' : s3.tree.pool.size = s.tree.pool.size + 1 := by rw [hsz3, f2.size, hn1]
-    have hr3 : s3.r = s2.r := by rw [hs3]
-    -- the connection argument
-    have arg : ∃ a s4, (if b.toNat = opBuffer then connBuffer d else connName d) s3 = .ok (a, s4) ∧ FP d s4 ∧ GrowE 1 1 s3 s4 ∧
-        (∀ c, a = .inr c → c = s3.tree.pool.size ∧ c < s4.tree.pool.size ∧ C13.P s4.tree c = INV ∧
-          s3.r.offset ≤ s4.r.offset) := by
-      split
-      · obtain ⟨a, s4, e4, h4, g4, hc4⟩ := connBuffer_tot hd h3 (by omega)
-        refine ⟨a, s4, e4, h4, g4.weaken (by omega) (by omega), ?_⟩
-        intro c hcc
-        obtain ⟨q1, q2, q3⟩ := hc4 c hcc
-        exact ⟨q1, q2, q3, by have := g4.offb; omega⟩
-      · exact connName_tot hd' h3 (by omega)
-    obtain ⟨a, s4, e4, h4, g4, hc4⟩ := arg
-    refine bind_ex e4 ?_
-    have g4' : GrowE 1 2 s s4 := g3.trans g4
-    have hoff4 : s.r.offset ≤ s4.r.offset := by
-      have := g4.offb; rw [hr3, hr2, ho1] at this; omega
-    cases a with
-    | inl res =>
-      exact pure_ex ⟨h4, ⟨by omega, g4'.pool, g4'.poolUp, g4'.oldP, g4'.scope, g4'.pkg, g4'.same⟩, fun st' hc => by cases hc⟩
-    | inr connArg =>
-      obtain ⟨q1, q2, q3, q4⟩ := hc4 connArg rfl
-      have hconn4 : s1.tree.pool.size < connArg := by rw [q1, hsz3, f2.size]; omega
-      obtain ⟨s5, e5, h5, hs5, hsz5, _, hP5, _⟩ := append_step h4 hconn4 q2 q3
-      refine bind_ex e5 (pure_ex ⟨h5, ?_, ?_⟩)
-      · have g5 := g4'.thenAppend hs5 hsz5 hP5 (by rw [q1, hsz3']; omega)
-        have hr5 : s5.r = s4.r := by rw [hs5]
-        exact ⟨by rw [hr5]; omega, g5.pool, g5.poolUp, g5.oldP, g5.scope, g5.pkg, g5.same⟩
-      · intro st' hcc
-        cases hcc
-        have hr5 : s5.r = s4.r := by rw [hs5]
-        refine ⟨rfl, ?_⟩
-        rw [hr5]; rw [hr3, hr2, ho1] at q4; omega
-
-/-- one iteration of the field-list loop (the reader is not at EOF) -/
-theorem fieldStep_tot {d : Bytes} (hd : d.size + 268435456 ≤ 4294967296) {s : PState} (h : FP d s)
-    (curObj : Nat) (st : FieldSt) (hfi : FieldInv s curObj st) (hsz : s.tree.pool.size + 1 < INV)
-    (hne : s.r.offset < s.r.pkgEnd) :
-    ∃ a s', fieldStep d curObj st s = .ok (a, s') ∧ FP d s' ∧ GrowE 0 2 s s' ∧
-      (∀ st', a = .inr st' → FieldInv s' curObj st' ∧ s.r.offset < s'.r.offset) := by
-  unfold fieldStep
-  obtain ⟨ob, s1, e1, h1, hR1, hs1⟩ := lex_step (rel_readByte d) h
-  refine bind_ex e1 ?_
-  have ht1 : s1.tree = s.tree := by rw [hs1]
-  rcases hR1 with ⟨_, _, hge⟩ | ⟨b, hb, hr, _⟩
-  · omega
-  · subst hb
-    have ho1 : s1.r.offset = s.r.offset + 1 := by rw [hr]
-    have g1 : GrowE 0 0 s s1 := GrowE.ofLex 0 hs1 (by omega)
-    have fi1 : FieldInv s1 curObj st := hfi.mono g1
-    have same : ∀ {a : FieldStep} {s' : PState}, FP d s' → GrowE 0 0 s1 s' →
-        (∀ st', a = .inr st' → st'.appendAfter = st.appendAfter ∧ s1.r.offset < s'.r.offset) →
-        FP d s' ∧ GrowE 0 2 s s' ∧ (∀ st', a = .inr st' → FieldInv s' curObj st' ∧ s.r.offset < s'.r.offset) := by
-      intro a s' h' g' hc'
-      refine ⟨h', (g1.trans g').weaken (by omega) (by omega), ?_⟩
-      intro st' hcc
-      obtain ⟨q1, q2⟩ := hc' st' hcc
-      have := fi1.mono g'
-      exact ⟨⟨this.1, by rw [q1]; exact this.2.1, this.2.2.1, by rw [q1]; exact this.2.2.2⟩, by omega⟩
-    split
-    · obtain ⟨a, s', e, h', g', hc'⟩ := fieldReserved_tot h1 st
-      exact ⟨a, s', e, same h' g' hc'⟩
-    · split
-      · obtain ⟨a, s', e, h', g', hc'⟩ := fieldAccess_tot h1 st
-        exact ⟨a, s', e, same h' g' hc'⟩
-      · split
-        · obtain ⟨a, s', e, h', g', hc'⟩ := fieldExtAccess_tot h1 st
-          exact ⟨a, s', e, same h' g' hc'⟩
-        · split
-          · obtain ⟨a, s', e, h', g', hc'⟩ := fieldConnection_tot hd h1 curObj st fi1.1 (by rw [ht1]; exact hsz)
-            refine ⟨a, s', e, h', (g1.trans g').weaken (by omega) (by omega), ?_⟩
-            intro st' hcc
-            obtain ⟨q1, q2⟩ := hc' st' hcc
-            have := fi1.mono g'
-            exact ⟨⟨this.1, by rw [q1]; exact this.2.1, this.2.2.1, by rw [q1]; exact this.2.2.2⟩, by omega⟩
-          · obtain ⟨a, s', e, h', g', hc'⟩ := fieldNamed_tot h1 curObj st fi1 (by rw [ht1]; omega)
-            have gt := g1.trans g'
-            refine ⟨a, s', e, h', ⟨by have := g'.offb; omega, gt.pool, by have := gt.poolUp; omega, gt.oldP, gt.scope, gt.pkg, gt.same⟩, ?_⟩
-            intro st' hcc
-            obtain ⟨q1, q2⟩ := hc' st' hcc
-            exact ⟨q1, by omega⟩
-
-/-- the object budget: `k` more objects fit besides 16 for every byte not yet consumed -/
-def Bud (d : Bytes) (k : Nat) (s : PState) : Prop := s.tree.pool.size + 16 * (d.size - s.r.offset) + k ≤ INV
-
-theorem Bud.step {d : Bytes} {k c g : Nat} {s s' : PState} (h : Bud d k s) (hg : Grow c g s s') (hi : s'.r.offset ≤ d.size)
-    (hck : c ≤ k) : Bud d (k - c) s' := by
-  unfold Bud at h ⊢
-  have := hg.budget; have := hg.off
-  omega
-
-/-- an equal-stacks step that consumed a byte and made at most 16 objects -/
-theorem GrowE.growProg {m : Nat} {s s' : PState} (h : GrowE 0 m s s') (hp : s.r.offset < s'.r.offset) (hm : m ≤ 16) :
-    Grow 0 0 s s' :=
-  ⟨by omega, h.pool, by have := h.poolUp; omega, h.oldP, by rw [h.scope]; exact Nat.le_refl _, by rw [h.pkg]; exact Nat.le_refl _,
-   by rw [h.scope, h.pkg]; omega, by rw [h.pkg]; omega, h.same⟩
-
-/-- the `for !p.r.EOF()` loop of `parseFieldElements` -/
-theorem fieldLoop_tot {d : Bytes} (hd : d.size + 268435456 ≤ 4294967296) (curObj : Nat) :
-    ∀ (f : Nat) (st : FieldSt) {s : PState}, FP d s → FieldInv s curObj st → Bud d 2 s → d.size - s.r.offset + 1 ≤ f →
-    ∃ res s', fieldLoop d curObj f st s = .ok (res, s') ∧ FP d s' ∧ Grow 2 0 s s' ∧
-      s'.scopeStack = s.scopeStack ∧ s'.pkgEndStack = s.pkgEndStack := by
-  intro f
-  induction f with
-  | zero => intro st s _ _ _ hf; omega
-  | succ f ih =>
-    intro st s h hfi hb hf
-    unfold fieldLoop
-    obtain ⟨b, s1, e1, h1, hR1, hs1⟩ := lex_step (rel_eof d) h
-    refine bind_ex e1 ?_
-    have hs : s1 = s := by rw [hs1, hR1.2]
-    subst hs
-    rw [hR1.1]
-    by_cases he : s1.r.eof = true
-    · rw [if_pos he]
-      exact pure_ex ⟨h, (Grow.refl s1).weaken (by omega) (by omega), rfl, rfl⟩
-    · rw [if_neg he]
-      have hne : s1.r.offset < s1.r.pkgEnd := by
-        unfold Reader.eof at he; simp at he; exact he
-      have hsz : s1.tree.pool.size + 1 < INV := by unfold Bud at hb; omega
-      obtain ⟨a, s2, e2, h2, g2, hc2⟩ := fieldStep_tot hd h curObj st hfi hsz hne
-      refine bind_ex e2 ?_
-      cases a with
-      | inl res => exact pure_ex ⟨h2, g2.grow, g2.scope, g2.pkg⟩
-      | inr st' =>
-        obtain ⟨fi2, hp2⟩ := hc2 st' rfl
-        have gg := g2.growProg hp2 (by omega)
-        have hi2 := h2.inv.1
-        have hb2 : Bud d 2 s2 := by have := hb.step gg hi2 (by omega); exact this
-        obtain ⟨res, s3, e3, h3, g3, hsc3, hpk3⟩ := ih st' h2 fi2 hb2 (by omega)
-        refine ⟨res, s3, e3, h3, ?_, by rw [hsc3, g2.scope], by rw [hpk3, g2.pkg]⟩
-        have := gg.trans g3
-        exact this.weaken (by omega) (by omega)
-
-/-- `parseFieldElements(curObj)`: `curObj` is attached and its last argument is an integer -/
-theorem parseFieldElements_tot {d : Bytes} (hd : d.size + 268435456 ≤ 4294967296) {s : PState} (h : FP d s) (curObj : Nat)
-    (hc : curObj < s.tree.pool.size) (hp : C13.P s.tree curObj ≠ INV) (hla : La s.tree curObj < s.tree.pool.size)
-    (hv : ∃ v, (slot s.tree (La s.tree curObj)).value = .u64 v) (hb : Bud d 2 s) :
-    ∃ res s', parseFieldElements d curObj s = .ok (res, s') ∧ FP d s' ∧ Grow 2 0 s s' ∧
-      s'.scopeStack = s.scopeStack ∧ s'.pkgEndStack = s.pkgEndStack := by
-  unfold parseFieldElements
-  refine bind_ex (getObj_ex hc) ?_
-  refine bind_ex (objectAt_live_ex h hla) ?_
-  refine bind_ex (derefP_some_ex _) ?_
-  obtain ⟨v, hv⟩ := hv
-  have e4 : u64Value (La s.tree curObj) s = .ok (v, s) := by
-    unfold u64Value
-    show (StateT.bind _ _) s = _
-    simp only [StateT.bind, getObj_ex hla, bind, Except.bind, hv]
-    rfl
-  refine bind_ex e4 ?_
-  exact fieldLoop_tot hd curObj (d.size + 1) _ h ⟨hc, hc, hp, rfl⟩ hb (by omega)
-
-/-! ## the remaining argument kinds -/
-
-/-- growth up to `s1`, then an append of an object that did not exist in the base state -/
-theorem Grow.thenAppend {c g : Nat} {s s1 s2 : PState} (gr : Grow c g s s1) {obj arg : Nat}
-    (hs2 : s2 = { s1 with tree := s2.tree }) (hsz : s2.tree.pool.size = s1.tree.pool.size)
-    (hP : ∀ x, C13.P s2.tree x = if x = arg then obj else C13.P s1.tree x) (hnew : s.tree.pool.size ≤ arg) :
-    Grow c g s s2 := by
-  have hr : s2.r = s1.r := by rw [hs2]
-  have hsc : s2.scopeStack = s1.scopeStack := by rw [hs2]
-  have hpk : s2.pkgEndStack = s1.pkgEndStack := by rw [hs2]
-  refine ⟨by rw [hr]; exact gr.off, by rw [hsz]; exact gr.pool, by rw [hsz, hr]; exact gr.budget, ?_,
-    by rw [hsc]; exact gr.sc, by rw [hpk]; exact gr.pk, by rw [hsc, hpk]; exact gr.scpk, by rw [hpk, hr]; exact gr.pkoff,
-    by rw [hs2]; exact gr.same⟩
-  intro x hx
-  rw [hP, if_neg (by omega)]
-  exact gr.oldP x hx
-
 theorem optP_ex {α : Type} (a : α) (s : PState) : optP (some a) s = .ok (a, s) := rfl
+
 theorem allBlocks_ex (s : PState) : allBlocks s = .ok (s.allBlocks, s) := rfl
-
-/-- `pushPkgEnd(e)` -/
-theorem pushPkgEnd_step {d : Bytes} {s : PState} (h : FP d s) (e : Nat) :
-    ∃ b s', pushPkgEnd d e s = .ok (b, s') ∧ FP d s' ∧
-      s' = { s with pkgEndStack := s.pkgEndStack.push e, r := s'.r } ∧ s'.r.offset = s.r.offset := by
-  unfold pushPkgEnd
-  have e0 : (modify fun s => { s with pkgEndStack := s.pkgEndStack.push e } : P Unit) s =
-      .ok ((), { s with pkgEndStack := s.pkgEndStack.push e }) := rfl
-  refine bind_ex e0 ?_
-  have h0 : FP d { s with pkgEndStack := s.pkgEndStack.push e } := ⟨h.inv, h.tree, h.scopes, h.skip⟩
-  obtain ⟨b, s1, e1, h1, hR1, hs1⟩ := lex_step (rel_setPkgEnd d e) h0
-  exact ⟨b, s1, e1, h1, hs1, hR1.1⟩
-
-/-- `case pArgTypePkgLen:` in the first pass -/
-theorem parsePkgLenArg_tot {d : Bytes} (hd : d.size + 268435456 ≤ 4294967296) {s : PState} (h : FP d s) (info curObj : Nat)
-    (hc : curObj < s.tree.pool.size) (hinfo : InfoOK info) :
-    ∃ a s', parsePkgLenArg d info curObj s = .ok (a, s') ∧ FP d s' ∧ a.1 = none ∧ Grow 0 0 s s' ∧
-      s'.scopeStack = s.scopeStack ∧ s'.tree.pool.size = s.tree.pool.size ∧
-      (a.2 = .ok → s'.pkgEndStack.size = s.pkgEndStack.size + 1) := by
-  unfold parsePkgLenArg
-  obtain ⟨o0, s1, e1, h1, hR1, hs1⟩ := lex_step (rel_offset d) h
-  refine bind_ex e1 ?_
-  have hss : s1 = s := by rw [hs1, hR1.2]
-  subst hss
-  obtain ⟨pr, s2, e2, h2, hR2, hs2⟩ := lex_step (rel_parsePkgLengthV d) h
-  refine bind_ex e2 ?_
-  have ht2 : s2.tree = s1.tree := by rw [hs2]
-  have hsc2 : s2.scopeStack = s1.scopeStack := by rw [hs2]
-  have hpk2 : s2.pkgEndStack = s1.pkgEndStack := by rw [hs2]
-  have hle2 : s1.r.offset ≤ s2.r.offset := by
-    rcases hR2.1 with ⟨_, hr⟩ | ⟨_, _, hlt, _⟩
-    · rw [hr]; exact Nat.le_refl _
-    · omega
-  have g2 : Grow 0 0 s1 s2 := by rw [hs2]; exact Grow.ofR s1 _ hle2
-  split
-  · exact pure_ex ⟨h2, rfl, g2, hsc2, by rw [ht2], fun hc2 => by rename_i hne; exact absurd hc2 hne⟩
-  · rename_i hok
-    have hok : pr.2 = .ok := by
-      by_cases hq : pr.2 = .ok
-      · exact hq
-      · exact absurd hq hok
-    obtain ⟨hlt2, hoff2⟩ : s1.r.offset < s2.r.offset ∧ s2.r.offset ≤ s1.r.offset + 4 := by
-      rcases hR2.1 with ⟨hf, _⟩ | ⟨_, _, hlt, hle, _⟩
-      · rw [hok] at hf; cases hf
-      · exact ⟨hlt, hle⟩
-    have hv := hR2.2
-    obtain ⟨fl, hfl⟩ := opFlags_of_info hinfo
-    rw [hfl]
-    refine bind_ex (optP_ex fl s2) ?_
-    refine bind_ex (allBlocks_ex s2) ?_
-    have hi1 := h.inv.1
-    have hu : u32 (o0 + pr.1) = s1.r.offset + pr.1 := by rw [hR1.1]; unfold u32; omega
-    rw [hu]
-    split
-    · -- deferred: remember the end of the block and skip it
-      have hc2 : curObj < s2.tree.pool.size := by rw [ht2]; exact hc
-      obtain ⟨s3, e3, h3, hp3, _, hr3⟩ := upd_step h2 hc2 (fun o => { o with pkgEnd := s1.r.offset + pr.1 }) (by keeps_links) Iff.rfl
-        (h2.tree.info curObj hc2)
-      refine bind_ex e3 ?_
-      obtain ⟨_, s4, e4, h4, hR4, hs4⟩ := lex_step (rel_setOffset d (s1.r.offset + pr.1)) h3
-      refine bind_ex e4 (pure_ex ⟨h4, rfl, ?_, ?_, ?_, fun hc4 => by cases hc4⟩)
-      · have hle4 : s3.r.offset ≤ s4.r.offset + 4 ∧ s1.r.offset ≤ s4.r.offset := by
-          rw [hR4.2, hr3]; split <;> omega
-        have g3 : Grow 0 0 s1 s3 := g2.trans hp3.grow
-        have ht4 : s4.tree = s3.tree := by rw [hs4]
-        have hsc4 : s4.scopeStack = s3.scopeStack := by rw [hs4]
-        have hpk4 : s4.pkgEndStack = s3.pkgEndStack := by rw [hs4]
-        refine ⟨hle4.2, by rw [ht4]; exact g3.pool, ?_, fun x hx => by rw [ht4]; exact g3.oldP x hx,
-          by rw [hsc4]; exact g3.sc, by rw [hpk4]; exact g3.pk, ?_, ?_, by rw [hs4]; exact g3.same⟩
-        · rw [ht4, hp3.links.size, ht2]; omega
-        · rw [hsc4, hpk4, hp3.scope, hp3.pkg, hsc2, hpk2]; omega
-        · rw [hpk4, hp3.pkg, hpk2]; omega
-      · have : s4.scopeStack = s3.scopeStack := by rw [hs4]
-        rw [this, hp3.scope, hsc2]
-      · have : s4.tree = s3.tree := by rw [hs4]
-        rw [this, hp3.links.size, ht2]
-    · obtain ⟨b, s3, e3, h3, hs3, ho3⟩ := pushPkgEnd_step h2 (s1.r.offset + pr.1)
-      refine bind_ex e3 ?_
-      have ht3 : s3.tree = s2.tree := by rw [hs3]
-      have hsc3 : s3.scopeStack = s2.scopeStack := by rw [hs3]
-      have hpk3 : s3.pkgEndStack = s2.pkgEndStack.push (s1.r.offset + pr.1) := by rw [hs3]
-      have hsame3 : s3.allBlocks = s2.allBlocks ∧ s3.tableHandle = s2.tableHandle ∧ s3.streamEnd = s2.streamEnd := by
-        rw [hs3]; exact ⟨rfl, rfl, rfl⟩
-      have g3 : Grow 0 0 s1 s3 := by
-        refine ⟨by omega, by rw [ht3, ht2]; exact Nat.le_refl _, by rw [ht3, ht2]; omega, fun x _ => by rw [ht3, ht2],
-          by rw [hsc3, hsc2]; exact Nat.le_refl _, by rw [hpk3, hpk2]; simp, by rw [hsc3, hsc2, hpk3, hpk2]; simp,
-          by rw [hpk3, hpk2]; simp; omega, ?_⟩
-        rw [hsame3.1, hsame3.2.1, hsame3.2.2]; exact g2.same
-      have hfin : FP d s3 ∧ Grow 0 0 s1 s3 ∧ s3.scopeStack = s1.scopeStack ∧ s3.tree.pool.size = s1.tree.pool.size ∧
-          s3.pkgEndStack.size = s1.pkgEndStack.size + 1 :=
-        ⟨h3, g3, by rw [hsc3, hsc2], by rw [ht3, ht2], by rw [hpk3, hpk2]; simp⟩
-      split
-      · exact pure_ex ⟨hfin.1, rfl, hfin.2.1, hfin.2.2.1, hfin.2.2.2.1, fun hc4 => by cases hc4⟩
-      · exact pure_ex ⟨hfin.1, rfl, hfin.2.1, hfin.2.2.1, hfin.2.2.2.1, fun _ => hfin.2.2.2.2⟩
-
-/-- the scope block of a `TermList` argument: a fresh detached object whose index is pushed on the scope stack -/
-theorem newScopeBlock_tot {d : Bytes} {s : PState} (h : FP d s) (hsz : s.tree.pool.size < INV) :
-    ∃ a s', newScopeBlock s = .ok (a, s') ∧ a = s.tree.pool.size ∧ FP d s' ∧ Grow 1 1 s s' ∧
-      s'.tree.pool.size = s.tree.pool.size + 1 ∧ C13.P s'.tree s.tree.pool.size = INV ∧
-      s'.scopeStack = s.scopeStack.push s.tree.pool.size ∧ s'.pkgEndStack = s.pkgEndStack ∧ s'.r = s.r := by
-  unfold newScopeBlock
-  obtain ⟨s1, e1, h1, f1, hr1, hnew1⟩ := newObject_step h opIntScopeBlock hsz (by decide) info_const.2.2.2.2.2.2.2.2.1
-  refine bind_ex e1 ?_
-  obtain ⟨off, s2, e2, h2, hR2, hs2⟩ := lex_step (rel_offset d) h1
-  refine bind_ex e2 ?_
-  have hss : s2 = s1 := by rw [hs2, hR2.2]
-  subst hss
-  have hobj : s.tree.pool.size < s2.tree.pool.size := by rw [f1.size]; omega
-  obtain ⟨s3, e3, h3, hp3, hsl3, hr3⟩ := upd_step h2 hobj (fun o => { o with amlOffset := off }) (by keeps_links) Iff.rfl
-    (h2.tree.info _ hobj)
-  refine bind_ex e3 ?_
-  have hobj3 : s.tree.pool.size < s3.tree.pool.size := by rw [hp3.links.size]; exact hobj
-  refine bind_ex (getObj_ex hobj3) ?_
-  have hidx : (slot s3.tree s.tree.pool.size).index = s.tree.pool.size := by
-    rw [hsl3, hnew1]; rfl
-  rw [hidx]
-  have f3 : Fresh1 s s3 := f1.thenPay hp3
-  have e4 : scopeEnter s.tree.pool.size s3 = .ok ((), { s3 with scopeStack := s3.scopeStack.push s.tree.pool.size }) := rfl
-  refine bind_ex e4 (pure_ex ⟨rfl, ?_, ?_, f3.size, f3.pn, by rw [← f3.scope], f3.pkg, by show s3.r = s.r; rw [hr3, hr1]⟩)
-  · refine ⟨h3.inv, h3.tree, ?_, h3.skip⟩
-    intro x hx
-    show x < s3.tree.pool.size
-    simp only [Array.toList_push, List.mem_append, List.mem_singleton] at hx
-    rcases hx with hx | hx
-    · exact h3.scopes x hx
-    · rw [hx]; exact hobj3
-  · have g3 := f3.grow
-    exact ⟨g3.off, g3.pool, g3.budget, g3.oldP, by show s.scopeStack.size ≤ (s3.scopeStack.push _).size; rw [f3.scope]; simp,
-      g3.pk, by show (s3.scopeStack.push _).size + _ ≤ _; rw [f3.scope, f3.pkg]; simp; omega, g3.pkoff, g3.same⟩
-
-/-- first-pass branch of `parseNamePathOrMethodCall` -/
-theorem namePathOrCallObject_tot {d : Bytes} {s : PState} (h : FP d s) (hsz : s.tree.pool.size < INV)
-    (hne : s.scopeStack.size ≠ 0) (curOffset : Nat) (pathExpr : Slice) :
-    ∃ res s', namePathOrCallObject curOffset pathExpr s = .ok (res, s') ∧ res = .ok ∧ FP d s' ∧ Grow 1 0 s s' ∧
-      s'.r = s.r ∧ s'.scopeStack = s.scopeStack ∧ s'.pkgEndStack = s.pkgEndStack := by
-  unfold namePathOrCallObject
-  obtain ⟨s1, e1, h1, f1, hr1, hnew1⟩ := newObject_step h opIntNamePathOrMethodCall hsz (by decide)
-    info_const.2.2.2.2.2.2.2.2.2.2.2.1
-  refine bind_ex e1 ?_
-  have hobj : s.tree.pool.size < s1.tree.pool.size := by rw [f1.size]; omega
-  obtain ⟨s2, e2, h2, hp2, _, hr2⟩ := upd_step h1 hobj (fun o => { o with amlOffset := curOffset }) (by keeps_links) Iff.rfl
-    (h1.tree.info _ hobj)
-  refine bind_ex e2 ?_
-  have hobj2 : s.tree.pool.size < s2.tree.pool.size := by rw [hp2.links.size]; exact hobj
-  obtain ⟨s3, e3, h3, hp3, _, hr3⟩ := upd_step h2 hobj2 (fun o => { o with value := sliceVal pathExpr }) (by keeps_links) Iff.rfl
-    (h2.tree.info _ hobj2)
-  refine bind_ex e3 ?_
-  have hobj3 : s.tree.pool.size < s3.tree.pool.size := by rw [hp3.links.size]; exact hobj2
-  have f3 : Fresh1 s s3 := (f1.thenPay hp2).thenPay hp3
-  have hne3 : s3.scopeStack.size ≠ 0 := by rw [f3.scope]; exact hne
-  obtain ⟨sc, e4, hsc⟩ := scopeCurrent_ex h3 hne3
-  refine bind_ex e4 ?_
-  refine bind_ex (derefP_some_ex sc) ?_
-  have hscs : sc < s.tree.pool.size := by
-    have hmem : sc ∈ s.scopeStack.toList := by
-      unfold scopeCurrent at e4
-      cases hb : s3.scopeStack.back? with
-      | none => rw [hb] at e4; cases e4
-      | some x =>
-        rw [hb] at e4
-        have : x = sc := by
-          simp only [objectAt_live (h3.tree.allLive x (h3.scopes x (Array.mem_toList_iff.mpr (Array.mem_of_back? hb))))] at e4
-          cases e4; rfl
-        rw [← this, ← f3.scope]
-        exact Array.mem_toList_iff.mpr (Array.mem_of_back? hb)
-    exact h.scopes sc hmem
-  obtain ⟨s5, e5, h5, hs5, hsz5, _, hP5, _⟩ := append_step h3 hscs hobj3 (by rw [hp3.links.p, hp2.links.p]; exact f1.pn)
-  refine bind_ex e5 (pure_ex ⟨rfl, h5, f3.grow.thenAppend hs5 hsz5 hP5 (Nat.le_refl _), ?_, ?_, ?_⟩)
-  · have : s5.r = s3.r := by rw [hs5]
-    rw [this, hr3, hr2, hr1]
-  · have : s5.scopeStack = s3.scopeStack := by rw [hs5]
-    rw [this, f3.scope]
-  · have : s5.pkgEndStack = s3.pkgEndStack := by rw [hs5]
-    rw [this, f3.pkg]
-
-/-! ## the mutually recursive object parser in the first pass -/
-
-theorem Bud.mono {d : Bytes} {k k' : Nat} {s : PState} (h : Bud d k s) (hk : k' ≤ k) : Bud d k' s := by
-  unfold Bud at h ⊢; omega
-
-/-- a reader-only step that consumed a byte buys 16 objects -/
-theorem Bud.consume {d : Bytes} {k : Nat} {s s1 : PState} (h : Bud d k s) (ht : s1.tree = s.tree)
-    (hlt : s.r.offset < s1.r.offset) (hi : s1.r.offset ≤ d.size) : Bud d (k + 16) s1 := by
-  unfold Bud at h ⊢; rw [ht]; omega
-
-theorem Bud.size_lt {d : Bytes} {k : Nat} {s : PState} (h : Bud d (k + 1) s) : s.tree.pool.size < INV := by
-  unfold Bud at h; omega
-
-/-- a reader-only step that consumed a byte pays for up to 16 objects of what follows -/
-theorem Grow.absorb {c g : Nat} {s s1 s' : PState} (hs1 : s1 = { s with r := s1.r }) (hlt : s.r.offset < s1.r.offset)
-    (gr : Grow c g s1 s') (hc : c ≤ 16) : Grow 0 g s s' := by
-  have ht : s1.tree = s.tree := by rw [hs1]
-  have hsc : s1.scopeStack = s.scopeStack := by rw [hs1]
-  have hpk : s1.pkgEndStack = s.pkgEndStack := by rw [hs1]
-  have hsame : s1.allBlocks = s.allBlocks ∧ s1.tableHandle = s.tableHandle ∧ s1.streamEnd = s.streamEnd := by
-    rw [hs1]; exact ⟨rfl, rfl, rfl⟩
-  refine ⟨by have := gr.off; omega, by rw [← ht]; exact gr.pool, by have := gr.budget; rw [ht] at this; omega,
-    fun x hx => by rw [gr.oldP x (by rw [ht]; exact hx), ht], by rw [← hsc]; exact gr.sc, by rw [← hpk]; exact gr.pk,
-    by have := gr.scpk; rw [hsc, hpk] at this; exact this, by have := gr.pkoff; rw [hpk] at this; omega, ?_⟩
-  rw [gr.same.1, gr.same.2.1, gr.same.2.2]; exact hsame
-
-/-- a reader-only step forward -/
-theorem Grow.ofLex {s s1 : PState} (hs1 : s1 = { s with r := s1.r }) (hle : s.r.offset ≤ s1.r.offset) : Grow 0 0 s s1 := by
-  rw [hs1]; exact Grow.ofR s _ hle
-
-/-- `parseNamePathOrMethodCall()` in the first pass: a `pOpIntNamePathOrMethodCall` object under the current scope -/
-theorem parseNamePathOrMethodCall_skip {d : Bytes} (hd : d.size + 268435456 ≤ 4294967296) (f : Nat) {s : PState} (h : FP d s)
-    (hne : s.scopeStack.size ≠ 0) (hb : Bud d 0 s) :
-    ∃ res s', parseNamePathOrMethodCall d (f + 1) s = .ok (res, s') ∧ FP d s' ∧ Grow 0 0 s s' ∧
-      (res = .ok → s.r.offset < s'.r.offset) := by
-  have hd' : d.size + 1024 ≤ 4294967296 := by omega
-  unfold parseNamePathOrMethodCall
-  obtain ⟨o0, s1, e1, h1, hR1, hs1⟩ := lex_step (rel_offset d) h
-  refine bind_ex e1 ?_
-  have hss : s1 = s := by rw [hs1, hR1.2]
-  subst hss
-  obtain ⟨sr, s2, e2, h2, hR2, hs2⟩ := lex_step (rel_parseNameString d hd') h
-  refine bind_ex e2 ?_
-  have g2 : Grow 0 0 s1 s2 := Grow.ofLex hs2 hR2.2.1
-  split
-  · exact pure_ex ⟨h2, g2, fun hc => by cases hc⟩
-  · rename_i hok
-    have hlt : s1.r.offset < s2.r.offset := by
-      rcases hR2.2.2.2 with ⟨_, hlt⟩ | hf
-      · exact hlt
-      · exact absurd (by rw [hf]; decide) hok
-    refine bind_ex (allBlocks_ex s2) ?_
-    have hsk : s2.allBlocks = false := h2.skip
-    rw [hsk]
-    have ht2 : s2.tree = s1.tree := by rw [hs2]
-    have hb2 : Bud d 16 s2 := hb.consume ht2 hlt h2.inv.1
-    have hne2 : s2.scopeStack.size ≠ 0 := by rw [hs2]; exact hne
-    obtain ⟨res, s3, e3, hres, h3, g3, hr3, _, _⟩ := namePathOrCallObject_tot h2 (hb2.mono (k' := 1) (by omega)).size_lt hne2 o0 sr.1
-    refine ⟨res, s3, e3, h3, Grow.absorb hs2 hlt g3 (by omega), fun _ => by rw [hr3]; exact hlt⟩
 
 /-- fuel `parseTarget` needs with `r` bytes left in the table -/
 def needT (r : Nat) : Nat := 13 * r + 2
-def needArg (r : Nat) : Nat := needT r + 1
-def needArgs (r j : Nat) : Nat := needArg r + (8 - j)
-def needOA (r : Nat) : Nat := needArgs r 0 + 1
-def needNext (r : Nat) : Nat := needOA r + 1
 
-/-- an object a parser function hands back to be appended: created by the call, still detached -/
-def RetOK (s s' : PState) (o : Option Nat) : Prop :=
-  ∀ a, o = some a → s.tree.pool.size ≤ a ∧ a < s'.tree.pool.size ∧ C13.P s'.tree a = INV
+def needArg (r : Nat) : Nat := needT r + 1
+
+def needArgs (r j : Nat) : Nat := needArg r + (8 - j)
+
+def needOA (r : Nat) : Nat := needArgs r 0 + 1
+
+def needNext (r : Nat) : Nat := needOA r + 1
 
 /-- scope pushes the rest of row `info` from argument `j` may make beyond its pkgEnd pushes -/
 def G (info j : Nat) : Nat := if 1 ≤ j ∧ tlFrom info j = true then 1 else 0
@@ -1900,613 +624,17 @@ def G (info j : Nat) : Nat := if 1 ≤ j ∧ tlFrom info j = true then 1 else 0
 /-- `curObj` hangs in the tree, or its row has no `FieldList` -/
 def Att (s : PState) (info curObj : Nat) : Prop := C13.P s.tree curObj ≠ INV ∨ noFL info = true
 
-/-- the argument before `j` was a `ByteData`: it is the last argument of `curObj` and holds an integer -/
-def PrevOK (s : PState) (info curObj j : Nat) : Prop :=
-  1 ≤ j → argAt info (j - 1) = argTypeByteData →
-    La s.tree curObj < s.tree.pool.size ∧ ∃ v, (slot s.tree (La s.tree curObj)).value = .u64 v
-
-/-- total correctness of the mutually recursive functions with fuel `f` in the first pass -/
-structure FirstPassTot (d : Bytes) (f : Nat) : Prop where
-  target : ∀ {s : PState}, FP d s → Bud d 1 s → needT (d.size - s.r.offset) ≤ f →
-    ∃ a s', parseTarget d f s = .ok (a, s') ∧ FP d s' ∧ Grow 1 0 s s' ∧ RetOK s s' a.1
-  arg : ∀ {s : PState} (info curObj argType : Nat), FP d s → curObj < s.tree.pool.size → InfoOK info → Bud d 2 s →
-    argType ≠ argTypeByteList →
-    (argType = argTypeFieldList → C13.P s.tree curObj ≠ INV ∧ La s.tree curObj < s.tree.pool.size ∧
-      ∃ v, (slot s.tree (La s.tree curObj)).value = .u64 v) →
-    needArg (d.size - s.r.offset) ≤ f →
-    ∃ a s', parseArg d f info curObj argType s = .ok (a, s') ∧ FP d s' ∧
-      Grow 2 (if argType = argTypeTermList then 1 else 0) s s' ∧ RetOK s s' a.1 ∧
-      (argType = argTypeByteData → a.2 = .ok → ∃ x v, a.1 = some x ∧ (slot s'.tree x).value = .u64 v) ∧
-      (argType = argTypePkgLen → s'.scopeStack.size = s.scopeStack.size ∧
-        (a.2 = .ok → s'.pkgEndStack.size = s.pkgEndStack.size + 1)) ∧
-      (argType = argTypeTermArg ∨ argType = argTypeTermList → a.2 ≠ .ok)
-  args : ∀ {s : PState} (info curObj j : Nat), FP d s → curObj < s.tree.pool.size → InfoOK info → rowFacts info = true →
-    j ≤ argCnt info → Bud d (2 * (7 - j)) s → Att s info curObj → PrevOK s info curObj j →
-    (1 ≤ j → argAt info (j - 1) ≠ argTypeTermArg) → needArgs (d.size - s.r.offset) j ≤ f →
-    ∃ res s', parseArgs d f info curObj j s = .ok (res, s') ∧ FP d s' ∧ Grow (2 * (7 - j)) (G info j) s s'
-  objectArgs : ∀ {s : PState} (curObj : Nat), FP d s → curObj < s.tree.pool.size →
-    rowFacts (slot s.tree curObj).infoIndex = true → Att s (slot s.tree curObj).infoIndex curObj → Bud d 14 s →
-    needOA (d.size - s.r.offset) ≤ f →
-    ∃ res s', parseObjectArgs d f curObj s = .ok (res, s') ∧ FP d s' ∧ Grow 14 0 s s'
-  nextObject : ∀ {s : PState}, FP d s → s.scopeStack.size ≠ 0 → Bud d 0 s → needNext (d.size - s.r.offset) ≤ f →
-    ∃ res s', parseNextObject d f s = .ok (res, s') ∧ FP d s' ∧ Grow 0 0 s s' ∧ (res = .ok → s.r.offset < s'.r.offset)
-
-theorem target_step {d : Bytes} (hd : d.size + 268435456 ≤ 4294967296) {f : Nat} (ih : FirstPassTot d f) {s : PState}
-    (h : FP d s) (hb : Bud d 1 s) (hf : needT (d.size - s.r.offset) ≤ f + 1) :
-    ∃ a s', parseTarget d (f + 1) s = .ok (a, s') ∧ FP d s' ∧ Grow 1 0 s s' ∧ RetOK s s' a.1 := by
-  have hd' : d.size + 1024 ≤ 4294967296 := by omega
-  unfold parseTarget
-  obtain ⟨o0, s1, e1, h1, hR1, hs1⟩ := lex_step (rel_offset d) h
-  refine bind_ex e1 ?_
-  have hss : s1 = s := by rw [hs1, hR1.2]
-  subst hss
-  obtain ⟨opr, s2, e2, h2, hR2, hs2⟩ := lex_step (rel_nextOpcode d hd') h
-  refine bind_ex e2 ?_
-  have ht2 : s2.tree = s1.tree := by rw [hs2]
-  rcases hR2 with ⟨hfail, _, hr2⟩ | ⟨hok, hbad, hop, _, hlt, _⟩
-  · -- a name
-    rw [if_neg (by rw [hfail]; decide)]
-    obtain ⟨_, s3, e3, h3, hR3, hs3⟩ := lex_step (rel_setOffset d o0) h2
-    refine bind_ex e3 ?_
-    have hr3 : s3.r = s1.r := by
-      have hoff : s3.r.offset = s1.r.offset := by
-        rw [hR3.2, hR1.1]; have := h.inv.1; split <;> omega
-      have hpk : s3.r.pkgEnd = s1.r.pkgEnd := by rw [hR3.1, hr2]
-      cases hq : s3.r; cases hq1 : s1.r
-      rw [hq] at hoff hpk; rw [hq1] at hoff hpk
-      simp only at hoff hpk; rw [hoff, hpk]
-    have hss3 : s3 = s1 := by rw [hs3, hs2, hr3]
-    subst hss3
-    obtain ⟨s4, e4, h4, f4, hr4, _⟩ := newObject_step h3 opIntNamePath (hb.mono (Nat.le_refl _)).size_lt (by decide)
-      info_const.2.2.2.2.2.2.1
-    refine bind_ex e4 ?_
-    have hobj : s3.tree.pool.size < s4.tree.pool.size := by rw [f4.size]; omega
-    obtain ⟨s5, e5, h5, hp5, _, hr5⟩ := upd_step h4 hobj (fun o => { o with amlOffset := o0 }) (by keeps_links) Iff.rfl
-      (h4.tree.info _ hobj)
-    refine bind_ex e5 ?_
-    have hobj5 : s3.tree.pool.size < s5.tree.pool.size := by rw [hp5.links.size]; exact hobj
-    obtain ⟨res, s6, e6, h6, hp6, _, _⟩ := setNameValue_tot hd' h5 hobj5
-    refine bind_ex e6 (pure_ex ⟨h6, ?_, ?_⟩)
-    · exact ((f4.thenPay hp5).thenPay hp6).grow
-    · intro a ha
-      cases ha
-      have f6 := (f4.thenPay hp5).thenPay hp6
-      exact ⟨Nat.le_refl _, by rw [f6.size]; omega, f6.pn⟩
-  · rw [if_pos hok]
-    have g2 : Grow 0 0 s1 s2 := Grow.ofLex hs2 (by omega)
-    by_cases hz : opr.1 = opZero
-    · rw [if_pos hz]
-      exact pure_ex ⟨h2, g2.weaken (by omega) (by omega), fun a ha => by cases ha⟩
-    · rw [if_neg hz]
-      split
-      · rename_i htarget
-        have htop : isTargetOp opr.1 = true := by
-          unfold isTargetOp
-          simp only [Bool.or_eq_true, beq_iff_eq]
-          rcases htarget with h | h | h | h | h
-          · exact Or.inl (Or.inl (Or.inl (Or.inl h)))
-          · exact Or.inl (Or.inl (Or.inl (Or.inr h)))
-          · exact Or.inl (Or.inl (Or.inr h))
-          · exact Or.inl (Or.inr h)
-          · exact Or.inr h
-        obtain ⟨hrow, hinfo, hnf, hnofl⟩ := op_facts hop hbad
-        have hb2 : Bud d 17 s2 := hb.consume ht2 hlt h2.inv.1
-        obtain ⟨s3, e3, h3, f3, hr3, hnew3⟩ := newObject_step h2 opr.1 (hb2.mono (k' := 1) (by omega)).size_lt hnf hinfo
-        refine bind_ex e3 ?_
-        rw [ht2] at e3 hnew3 ⊢
-        have hobj : s1.tree.pool.size < s3.tree.pool.size := by rw [f3.size, ht2]; omega
-        obtain ⟨s4, e4, h4, hp4, hsl4, hr4⟩ := upd_step h3 hobj (fun o => { o with amlOffset := o0 }) (by keeps_links) Iff.rfl
-          (h3.tree.info _ hobj)
-        refine bind_ex e4 ?_
-        have hobj4 : s1.tree.pool.size < s4.tree.pool.size := by rw [hp4.links.size]; exact hobj
-        have hinfo4 : (slot s4.tree s1.tree.pool.size).infoIndex = pOpcodeTableIndex opr.1 true := by
-          rw [hsl4, hnew3]; rfl
-        have f4 : Fresh1 s2 s4 := f3.thenPay (by rw [ht2]; exact hp4)
-        have g4 : Grow 1 0 s2 s4 := f4.grow
-        have hb4 : Bud d 14 s4 := by
-          have := hb2.step g4 h4.inv.1 (by omega); exact this.mono (by omega)
-        have hfuel : needOA (d.size - s4.r.offset) ≤ f := by
-          have h1 := g4.off
-          have h2' := h4.inv.1
-          unfold needT at hf; unfold needOA needArgs needArg needT; omega
-        obtain ⟨res, s5, e5, h5, g5⟩ := ih.objectArgs (s := s4) s1.tree.pool.size h4 hobj4 (by rw [hinfo4]; exact hrow)
-          (Or.inr (by rw [hinfo4]; exact hnofl htop)) hb4 hfuel
-        refine bind_ex e5 (pure_ex ⟨h5, ?_, ?_⟩)
-        · have := Grow.absorb hs2 hlt (g4.trans g5) (by omega)
-          exact this.weaken (by omega) (by omega)
-        · intro a ha
-          cases ha
-          refine ⟨Nat.le_refl _, Nat.lt_of_lt_of_le hobj4 g5.pool, ?_⟩
-          rw [g5.oldP _ hobj4]
-          have := f4.pn; rw [ht2] at this; exact this
-      · exact pure_ex ⟨h2, g2.weaken (by omega) (by omega), fun a ha => by cases ha⟩
-
-theorem arg_step {d : Bytes} (hd : d.size + 268435456 ≤ 4294967296) {f : Nat} (ih : FirstPassTot d f) {s : PState}
-    (info curObj argType : Nat) (h : FP d s) (hc : curObj < s.tree.pool.size) (hinfo : InfoOK info) (hb : Bud d 2 s)
-    (hnbl : argType ≠ argTypeByteList)
-    (hfl : argType = argTypeFieldList → C13.P s.tree curObj ≠ INV ∧ La s.tree curObj < s.tree.pool.size ∧
-      ∃ v, (slot s.tree (La s.tree curObj)).value = .u64 v)
-    (hf : needArg (d.size - s.r.offset) ≤ f + 1) :
-    ∃ a s', parseArg d (f + 1) info curObj argType s = .ok (a, s') ∧ FP d s' ∧
-      Grow 2 (if argType = argTypeTermList then 1 else 0) s s' ∧ RetOK s s' a.1 ∧
-      (argType = argTypeByteData → a.2 = .ok → ∃ x v, a.1 = some x ∧ (slot s'.tree x).value = .u64 v) ∧
-      (argType = argTypePkgLen → s'.scopeStack.size = s.scopeStack.size ∧
-        (a.2 = .ok → s'.pkgEndStack.size = s.pkgEndStack.size + 1)) ∧
-      (argType = argTypeTermArg ∨ argType = argTypeTermList → a.2 ≠ .ok) := by
-  have hd' : d.size + 1024 ≤ 4294967296 := by omega
-  unfold parseArg
-  by_cases hsimple : isSimpleArg argType = true
-  · rw [if_pos hsimple]
-    have hntl : argType ≠ argTypeTermList := by intro hq; rw [hq] at hsimple; revert hsimple; decide
-    have hnpk : argType ≠ argTypePkgLen := by intro hq; rw [hq] at hsimple; revert hsimple; decide
-    have hnta : argType ≠ argTypeTermArg := by intro hq; rw [hq] at hsimple; revert hsimple; decide
-    rw [if_neg hntl]
-    obtain ⟨a, s', e, h', f', hres⟩ := parseSimpleArg_tot hd' h (hb.mono (k' := 1) (by omega)).size_lt argType
-    refine ⟨a, s', e, h', f'.grow.weaken (by omega) (by omega), ?_, ?_, fun hq => absurd hq hnpk, ?_⟩
-    · intro x hx
-      rcases hres with ⟨ha, _, _⟩ | ha
-      · rw [ha] at hx; cases hx
-        exact ⟨Nat.le_refl _, by rw [f'.size]; omega, f'.pn⟩
-      · rw [ha] at hx; cases hx
-    · intro hbd hok
-      rcases hres with ⟨ha, _, hv⟩ | ha
-      · obtain ⟨v, hv⟩ := hv (Or.inl hbd)
-        exact ⟨_, v, ha, hv⟩
-      · rw [ha] at hok; cases hok
-    · intro hq; rcases hq with hq | hq
-      · exact absurd hq hnta
-      · exact absurd hq hntl
-  · rw [if_neg hsimple, if_neg hnbl]
-    by_cases hpk : argType = argTypePkgLen
-    · rw [if_pos hpk]
-      have hntl : argType ≠ argTypeTermList := by rw [hpk]; decide
-      rw [if_neg hntl]
-      obtain ⟨a, s', e, h', ha, g', hsc, _, hpush⟩ := parsePkgLenArg_tot hd h info curObj hc hinfo
-      refine ⟨a, s', e, h', g'.weaken (by omega) (by omega), fun x hx => (by rw [ha] at hx; cases hx),
-        fun hq => (by rw [hpk] at hq; cases hq), fun _ => ⟨by rw [hsc], hpush⟩, ?_⟩
-      intro hq; rcases hq with hq | hq
-      · rw [hpk] at hq; cases hq
-      · exact absurd hq hntl
-    · rw [if_neg hpk]
-      by_cases hfld : argType = argTypeFieldList
-      · rw [if_pos hfld]
-        have hntl : argType ≠ argTypeTermList := by rw [hfld]; decide
-        rw [if_neg hntl]
-        obtain ⟨hp, hla, hv⟩ := hfl hfld
-        obtain ⟨res, s', e, h', g', _, _⟩ := parseFieldElements_tot hd h curObj hc hp hla hv hb
-        refine bind_ex e (pure_ex ⟨h', g', fun x hx => (by cases hx), fun hq => (by rw [hfld] at hq; cases hq),
-          fun hq => absurd hq hpk, ?_⟩)
-        intro hq; rcases hq with hq | hq
-        · rw [hfld] at hq; cases hq
-        · exact absurd hq hntl
-      · rw [if_neg hfld]
-        by_cases hta : argType = argTypeTermArg ∨ argType = argTypeDataRefObj
-        · rw [if_pos hta]
-          have hntl : argType ≠ argTypeTermList := by rcases hta with hq | hq <;> rw [hq] <;> decide
-          rw [if_neg hntl]
-          refine bind_ex (allBlocks_ex s) ?_
-          rw [h.skip]
-          refine pure_ex ⟨h, (Grow.refl s).weaken (by omega) (by omega), fun x hx => (by cases hx), ?_, fun hq => absurd hq hpk,
-            fun _ hq => by cases hq⟩
-          intro hq; rcases hta with hq2 | hq2 <;> rw [hq2] at hq <;> cases hq
-        · rw [if_neg hta]
-          by_cases htl : argType = argTypeTermList
-          · rw [if_pos htl, if_pos htl]
-            obtain ⟨a, s', e, ha, h', g', hsz, hpn, _, _, _⟩ := newScopeBlock_tot h (hb.mono (k' := 1) (by omega)).size_lt
-            refine bind_ex e ?_
-            refine bind_ex (allBlocks_ex s') ?_
-            rw [h'.skip]
-            refine pure_ex ⟨h', g'.weaken (by omega) (by omega), ?_, fun hq => (by rw [htl] at hq; cases hq),
-              fun hq => absurd hq hpk, fun _ hq => by cases hq⟩
-            intro x hx
-            cases hx
-            rw [ha]
-            exact ⟨Nat.le_refl _, by rw [hsz]; omega, hpn⟩
-          · rw [if_neg htl, if_neg htl]
-            have hfuel : needT (d.size - s.r.offset) ≤ f := by unfold needArg at hf; omega
-            obtain ⟨a, s', e, h', g', hret⟩ := ih.target h (hb.mono (by omega)) hfuel
-            refine ⟨a, s', e, h', g'.weaken (by omega) (by omega), hret, ?_, fun hq => absurd hq hpk, ?_⟩
-            · intro hq; rw [hq] at hsimple; exact absurd (by decide) hsimple
-            · intro hq; rcases hq with hq | hq
-              · exact absurd (Or.inl hq) hta
-              · exact absurd hq htl
-
-/-- a pkgEnd push (no scope push) pays for one scope push of what follows -/
-theorem Grow.afterPkg {c1 c2 : Nat} {s s1 s' : PState} (g1 : Grow c1 0 s s1)
-    (hsc : s1.scopeStack.size = s.scopeStack.size) (hpk : s1.pkgEndStack.size = s.pkgEndStack.size + 1)
-    (g2 : Grow c2 1 s1 s') : Grow (c1 + c2) 0 s s' := by
-  have t := g1.trans g2
-  exact ⟨t.off, t.pool, t.budget, t.oldP, t.sc, t.pk, by have := g2.scpk; omega, t.pkoff, t.same⟩
-
 theorem samePay_value {t t' : ObjectTree} (h : SamePay t t') (x : Nat) : (slot t' x).value = (slot t x).value :=
   congrArg (fun p => p.2.2.2.2.2.2.2) (h.pay x)
 
 theorem needArgs_next {r r' j f : Nat} (h : needArgs r j ≤ f + 1) (hr : r' ≤ r) (hj : j < 8) : needArgs r' (j + 1) ≤ f := by
   unfold needArgs needArg needT at *; omega
 
-theorem args_step {d : Bytes} {f : Nat} (ih : FirstPassTot d f) {s : PState}
-    (info curObj j : Nat) (h : FP d s) (hc : curObj < s.tree.pool.size) (hinfo : InfoOK info) (hrow : rowFacts info = true)
-    (hj : j ≤ argCnt info) (hb : Bud d (2 * (7 - j)) s) (hatt : Att s info curObj) (hprev : PrevOK s info curObj j)
-    (hpast : 1 ≤ j → argAt info (j - 1) ≠ argTypeTermArg) (hf : needArgs (d.size - s.r.offset) j ≤ f + 1) :
-    ∃ res s', parseArgs d (f + 1) info curObj j s = .ok (res, s') ∧ FP d s' ∧ Grow (2 * (7 - j)) (G info j) s s' := by
-  unfold parseArgs
-  rw [opArgCount_of_info hinfo]
-  refine bind_ex (optP_ex _ s) ?_
-  have hcnt := rowFacts_cnt hrow
-  by_cases hlt : j < argCnt info
-  · rw [if_pos hlt, opArg_of_info hinfo j]
-    refine bind_ex (optP_ex _ s) ?_
-    have hj8 : j < 8 := by omega
-    have hnbl : argAt info j ≠ argTypeByteList := by
-      intro hq
-      obtain ⟨q1, q2⟩ := rowFacts_bl hrow hj8 hq
-      exact hpast q1 q2
-    have hfl : argAt info j = argTypeFieldList → C13.P s.tree curObj ≠ INV ∧ La s.tree curObj < s.tree.pool.size ∧
-        ∃ v, (slot s.tree (La s.tree curObj)).value = .u64 v := by
-      intro hq
-      obtain ⟨q1, q2⟩ := rowFacts_fl hrow hj8 hq
-      obtain ⟨q3, q4⟩ := hprev q1 q2
-      refine ⟨?_, q3, q4⟩
-      rcases hatt with hp | hno
-      · exact hp
-      · exact absurd hq (noFL_at hno hj8)
-    have hfuel : needArg (d.size - s.r.offset) ≤ f := by unfold needArgs at hf; omega
-    obtain ⟨⟨a1, a2⟩, s1, e1, h1, g1, hret, hbd, hpkl, hstop⟩ :=
-      ih.arg info curObj (argAt info j) h hc hinfo (hb.mono (by omega)) hnbl hfl hfuel
-    refine bind_ex e1 ?_
-    dsimp only at hret hbd hpkl hstop ⊢
-    have hc1 : curObj < s1.tree.pool.size := Nat.lt_of_lt_of_le hc g1.pool
-    have hGle : (if argAt info j = argTypeTermList then 1 else 0) ≤ G info j := by
-      split
-      · rename_i htl
-        have := rowFacts_tl hrow hj8 htl
-        unfold G
-        rw [if_pos ⟨this.1, tlFrom_of_at hj8 htl⟩]
-        exact Nat.le_refl _
-      · exact Nat.zero_le _
-    have cont : ∀ s2 : PState, FP d s2 → Grow 2 (if argAt info j = argTypeTermList then 1 else 0) s s2 → s2.r = s1.r →
-        s2.tree.pool.size = s1.tree.pool.size → s2.scopeStack = s1.scopeStack → s2.pkgEndStack = s1.pkgEndStack →
-        (∀ x, a1 = some x → La s2.tree curObj = x ∧ (slot s2.tree x).value = (slot s1.tree x).value) →
-        ∃ res s', (if a2 = .ok then parseArgs d f info curObj (j + 1) else pure a2) s2 = .ok (res, s') ∧ FP d s' ∧
-          Grow (2 * (7 - j)) (G info j) s s' := by
-      intro s2 h2 g2 hr2 hsz2 hsc2 hpk2 hla2
-      by_cases hok : a2 = .ok
-      · rw [if_pos hok]
-        have hntl : argAt info j ≠ argTypeTermList := fun hq => hstop (Or.inr hq) hok
-        rw [if_neg hntl] at g2
-        have hc2 : curObj < s2.tree.pool.size := by rw [hsz2]; exact hc1
-        have hb2 : Bud d (2 * (7 - (j + 1))) s2 := by
-          have := hb.step g2 h2.inv.1 (by omega)
-          exact this.mono (by omega)
-        have hatt2 : Att s2 info curObj := by
-          unfold Att at hatt ⊢
-          rw [g2.oldP curObj hc]; exact hatt
-        have hprev2 : PrevOK s2 info curObj (j + 1) := by
-          intro _ hq
-          have hq' : argAt info j = argTypeByteData := hq
-          obtain ⟨x, v, hx, hv⟩ := hbd hq' hok
-          obtain ⟨q1, q2⟩ := hla2 x hx
-          obtain ⟨_, q4, _⟩ := hret x hx
-          rw [q1]
-          exact ⟨by rw [hsz2]; exact q4, v, by rw [q2]; exact hv⟩
-        have hpast2 : 1 ≤ j + 1 → argAt info (j + 1 - 1) ≠ argTypeTermArg := by
-          intro _ hq
-          exact hstop (Or.inl hq) hok
-        have hfuel2 : needArgs (d.size - s2.r.offset) (j + 1) ≤ f :=
-          needArgs_next hf (Nat.sub_le_sub_left g2.off _) hj8
-        obtain ⟨res, s3, e3, h3, g3⟩ := ih.args info curObj (j + 1) h2 hc2 hinfo hrow (by omega) hb2 hatt2 hprev2 hpast2 hfuel2
-        refine ⟨res, s3, e3, h3, ?_⟩
-        have hcc : 2 + 2 * (7 - (j + 1)) = 2 * (7 - j) := by omega
-        by_cases hG1 : 1 ≤ j + 1 ∧ tlFrom info (j + 1) = true
-        · have hGv : G info (j + 1) = 1 := by unfold G; rw [if_pos hG1]
-          rw [hGv] at g3
-          by_cases hj0 : j = 0
-          · -- the `PkgLen` at index 0 pushed a pkgEnd
-            have hpk0 : argAt info j = argTypePkgLen := by rw [hj0]; exact tlFrom_pkg hrow hG1.2
-            obtain ⟨q1, q2⟩ := hpkl hpk0
-            have := g2.afterPkg (by rw [hsc2]; exact q1) (by rw [hpk2]; exact q2 hok) g3
-            rw [hcc] at this
-            exact this.weaken (Nat.le_refl _) (Nat.zero_le _)
-          · have hGj : G info j = 1 := by unfold G; rw [if_pos ⟨by omega, tlFrom_mono hG1.2⟩]
-            rw [hGj]
-            have := g2.trans g3
-            rw [hcc] at this
-            exact this
-        · have hGv : G info (j + 1) = 0 := by unfold G; rw [if_neg hG1]
-          rw [hGv] at g3
-          have := g2.trans g3
-          rw [hcc] at this
-          exact this.weaken (Nat.le_refl _) (Nat.zero_le _)
-      · rw [if_neg hok]
-        exact pure_ex ⟨h2, g2.weaken (by omega) hGle⟩
-    -- the returned object becomes the last argument of `curObj`
-    cases a1 with
-    | none => exact cont s1 h1 g1 rfl rfl rfl rfl (fun x hx => by cases hx)
-    | some x =>
-      obtain ⟨q1, q2, q3⟩ := hret x rfl
-      obtain ⟨s2, e2, h2, hs2, hsz2, sp2, hP2, hLa2⟩ := append_step h1 (Nat.lt_of_lt_of_le hc q1) q2 q3
-      refine bind_ex e2 ?_
-      refine cont s2 h2 (g1.thenAppend hs2 hsz2 hP2 q1) (by rw [hs2]) hsz2 (by rw [hs2]) (by rw [hs2]) ?_
-      intro y hy
-      cases hy
-      exact ⟨hLa2, samePay_value sp2 _⟩
-  · rw [if_neg hlt]
-    exact pure_ex ⟨h, (Grow.refl s).weaken (Nat.zero_le _) (Nat.zero_le _)⟩
-
 theorem G_zero (info : Nat) : G info 0 = 0 := by
   unfold G; rw [if_neg (by omega)]
 
-theorem objectArgs_step {d : Bytes} {f : Nat} (ih : FirstPassTot d f) {s : PState} (curObj : Nat) (h : FP d s)
-    (hc : curObj < s.tree.pool.size) (hrow : rowFacts (slot s.tree curObj).infoIndex = true)
-    (hatt : Att s (slot s.tree curObj).infoIndex curObj) (hb : Bud d 14 s) (hf : needOA (d.size - s.r.offset) ≤ f + 1) :
-    ∃ res s', parseObjectArgs d (f + 1) curObj s = .ok (res, s') ∧ FP d s' ∧ Grow 14 0 s s' := by
-  unfold parseObjectArgs
-  refine bind_ex (getObj_ex hc) ?_
-  have num : ∀ n, ∃ res s', (setNumValue d curObj n >>= fun res => (fun res => (pure (if res = PRes.shortCircuit then PRes.ok else res) : P PRes)) res) s =
-      .ok (res, s') ∧ FP d s' ∧ Grow 14 0 s s' := by
-    intro n
-    obtain ⟨res, s', e, h', hp, _, _⟩ := setNumValue_tot h hc n
-    refine bind_ex e ?_
-    exact pure_ex ⟨h', hp.grow.weaken (by omega) (by omega)⟩
-  split
-  · exact num 1
-  · split
-    · exact num 2
-    · split
-      · exact num 4
-      · split
-        · exact num 8
-        · split
-          · obtain ⟨res, s', e, h', hp, _, _⟩ := setStringValue_tot h hc
-            refine bind_ex e ?_
-            exact pure_ex ⟨h', hp.grow.weaken (by omega) (by omega)⟩
-          · have hinfo := h.tree.info curObj hc
-            obtain ⟨fl, hfl⟩ := opFlags_of_info hinfo
-            rw [hfl]
-            refine bind_ex (optP_ex fl s) ?_
-            have hfuel : needArgs (d.size - s.r.offset) 0 ≤ f := by unfold needOA at hf; omega
-            obtain ⟨res, s', e, h', g'⟩ := ih.args (slot s.tree curObj).infoIndex curObj 0 h hc hinfo hrow (Nat.zero_le _)
-              (hb.mono (by omega)) hatt (fun h0 => by omega) (fun h0 => by omega) hfuel
-            rw [G_zero] at g'
-            refine bind_ex e ?_
-            exact pure_ex ⟨h', g'.weaken (by omega) (Nat.le_refl _)⟩
-
-theorem nextObject_step {d : Bytes} (hd : d.size + 268435456 ≤ 4294967296) {f : Nat} (ih : FirstPassTot d f) {s : PState}
-    (h : FP d s) (hne : s.scopeStack.size ≠ 0) (hb : Bud d 0 s) (hf : needNext (d.size - s.r.offset) ≤ f + 1) :
-    ∃ res s', parseNextObject d (f + 1) s = .ok (res, s') ∧ FP d s' ∧ Grow 0 0 s s' ∧
-      (res = .ok → s.r.offset < s'.r.offset) := by
-  have hd' : d.size + 1024 ≤ 4294967296 := by omega
-  unfold parseNextObject
-  obtain ⟨o0, s1, e1, h1, hR1, hs1⟩ := lex_step (rel_offset d) h
-  refine bind_ex e1 ?_
-  have hss : s1 = s := by rw [hs1, hR1.2]
-  subst hss
-  obtain ⟨opr, s2, e2, h2, hR2, hs2⟩ := lex_step (rel_nextOpcode d hd') h
-  refine bind_ex e2 ?_
-  have ht2 : s2.tree = s1.tree := by rw [hs2]
-  rcases hR2 with ⟨hfail, hop, hr2⟩ | ⟨hok, hbad, hop, _, hlt, _⟩
-  · -- not an opcode: a name
-    rw [if_neg (by rw [hop]; decide), if_pos hfail]
-    have hss2 : s2 = s1 := by rw [hs2, hr2]
-    subst hss2
-    obtain ⟨f', hf'⟩ : ∃ f', f = f' + 1 := by
-      cases f with
-      | zero => unfold needNext needOA needArgs needArg needT at hf; omega
-      | succ f' => exact ⟨f', rfl⟩
-    rw [hf']
-    exact parseNamePathOrMethodCall_skip hd f' h hne hb
-  · have g2 : Grow 0 0 s1 s2 := Grow.ofLex hs2 (by omega)
-    by_cases hnoop : opr.1 = opNoop
-    · rw [if_pos hnoop]
-      exact pure_ex ⟨h2, g2, fun _ => hlt⟩
-    · rw [if_neg hnoop, if_neg (by rw [hok]; decide)]
-      obtain ⟨hrow, hinfo, hnf, _⟩ := op_facts hop hbad
-      have hb2 : Bud d 16 s2 := hb.consume ht2 hlt h2.inv.1
-      obtain ⟨s3, e3, h3, f3, hr3, hnew3⟩ := newObject_step h2 opr.1 (hb2.mono (k' := 1) (by omega)).size_lt hnf hinfo
-      refine bind_ex e3 ?_
-      rw [ht2] at e3 hnew3 ⊢
-      have hobj : s1.tree.pool.size < s3.tree.pool.size := by rw [f3.size, ht2]; omega
-      obtain ⟨s4, e4, h4, hp4, hsl4, hr4⟩ := upd_step h3 hobj (fun o => { o with amlOffset := o0 }) (by keeps_links) Iff.rfl
-        (h3.tree.info _ hobj)
-      refine bind_ex e4 ?_
-      have hobj4 : s1.tree.pool.size < s4.tree.pool.size := by rw [hp4.links.size]; exact hobj
-      have f4 : Fresh1 s2 s4 := f3.thenPay (by rw [ht2]; exact hp4)
-      have hne4 : s4.scopeStack.size ≠ 0 := by rw [f4.scope, hs2]; exact hne
-      obtain ⟨sc, e5, hsc⟩ := scopeCurrent_ex h4 hne4
-      refine bind_ex e5 ?_
-      refine bind_ex (derefP_some_ex sc) ?_
-      have hscs : sc < s1.tree.pool.size := by
-        have hmem : sc ∈ s1.scopeStack.toList := by
-          unfold scopeCurrent at e5
-          cases hbk : s4.scopeStack.back? with
-          | none => rw [hbk] at e5; cases e5
-          | some x =>
-            rw [hbk] at e5
-            have : x = sc := by
-              simp only [objectAt_live (h4.tree.allLive x (h4.scopes x (Array.mem_toList_iff.mpr (Array.mem_of_back? hbk))))] at e5
-              cases e5; rfl
-            have hsc4 : s4.scopeStack = s1.scopeStack := by rw [f4.scope, hs2]
-            rw [← this, ← hsc4]
-            exact Array.mem_toList_iff.mpr (Array.mem_of_back? hbk)
-        exact h.scopes sc hmem
-      have hpn4 : C13.P s4.tree s1.tree.pool.size = INV := by have := f4.pn; rw [ht2] at this; exact this
-      obtain ⟨s6, e6, h6, hs6, hsz6, sp6, hP6, _⟩ := append_step h4 hscs hobj4 hpn4
-      refine bind_ex e6 ?_
-      have g6 : Grow 1 0 s2 s6 := f4.grow.thenAppend hs6 hsz6 hP6 (by rw [ht2]; exact Nat.le_refl _)
-      have hobj6 : s1.tree.pool.size < s6.tree.pool.size := by rw [hsz6]; exact hobj4
-      have hinfo6 : (slot s6.tree s1.tree.pool.size).infoIndex = pOpcodeTableIndex opr.1 true := by
-        have hpay := congrArg (fun p => p.2.1) (sp6.pay s1.tree.pool.size)
-        have : (slot s6.tree s1.tree.pool.size).infoIndex = (slot s4.tree s1.tree.pool.size).infoIndex := hpay
-        rw [this, hsl4, hnew3]; rfl
-      have hb6 : Bud d 14 s6 := by
-        have := hb2.step g6 h6.inv.1 (by omega); exact this.mono (by omega)
-      have hfuel : needOA (d.size - s6.r.offset) ≤ f := by
-        have hle : d.size - s6.r.offset ≤ d.size - s1.r.offset := Nat.sub_le_sub_left (Nat.le_trans g2.off g6.off) _
-        unfold needNext at hf
-        unfold needOA needArgs needArg needT at hf ⊢
-        omega
-      have hP : C13.P s6.tree s1.tree.pool.size = sc := by rw [hP6, if_pos rfl]
-      have hscne : sc ≠ INV := by
-        have := (hb2.mono (k' := 1) (by omega)).size_lt
-        rw [ht2] at this; omega
-      obtain ⟨res, s7, e7, h7, g7⟩ := ih.objectArgs (s := s6) s1.tree.pool.size h6 hobj6 (by rw [hinfo6]; exact hrow)
-        (Or.inl (by rw [hP]; exact hscne)) hb6 hfuel
-      have gfin := Grow.absorb hs2 hlt (g6.trans g7) (by omega)
-      exact ⟨res, s7, e7, h7, gfin, fun _ => by have := g6.off; have := g7.off; omega⟩
-
-/-- the object parser in the first pass is total for every amount of fuel that covers the bytes left -/
-theorem firstPassTot {d : Bytes} (hd : d.size + 268435456 ≤ 4294967296) (f : Nat) : FirstPassTot d f := by
-  induction f with
-  | zero =>
-    refine ⟨?_, ?_, ?_, ?_, ?_⟩
-    · intro s _ _ hf; unfold needT at hf; omega
-    · intro s _ _ _ _ _ _ _ _ _ hf; unfold needArg needT at hf; omega
-    · intro s _ _ j _ _ _ _ _ _ _ _ _ hf; unfold needArgs needArg needT at hf; omega
-    · intro s _ _ _ _ _ _ hf; unfold needOA needArgs needArg needT at hf; omega
-    · intro s _ _ _ hf; unfold needNext needOA needArgs needArg needT at hf; omega
-  | succ f ih =>
-    exact ⟨fun h hb hf => target_step hd ih h hb hf,
-      fun info curObj argType h hc hinfo hb hnbl hfl hf => arg_step hd ih info curObj argType h hc hinfo hb hnbl hfl hf,
-      fun info curObj j h hc hinfo hrow hj hb hatt hprev hpast hf => args_step ih info curObj j h hc hinfo hrow hj hb hatt hprev hpast hf,
-      fun curObj h hc hrow hatt hb hf => objectArgs_step ih curObj h hc hrow hatt hb hf,
-      fun h hne hb hf => nextObject_step hd ih h hne hb hf⟩
-
-/-! ## `parseObjectList` -/
-
 theorem needNext_mono {r r' : Nat} (h : r' ≤ r) : needNext r' ≤ needNext r := by
   unfold needNext needOA needArgs needArg needT; omega
-
-/-- the inner loop of `parseObjectList` -/
-theorem objectListInner_tot {d : Bytes} (hd : d.size + 268435456 ≤ 4294967296) (fuel : Nat) :
-    ∀ (n : Nat) {s : PState}, FP d s → s.scopeStack.size ≠ 0 → Bud d 0 s → needNext (d.size - s.r.offset) ≤ fuel →
-      d.size - s.r.offset + 1 ≤ n →
-      ∃ b s', objectListInner d fuel n s = .ok (b, s') ∧ FP d s' ∧ Grow 0 0 s s' := by
-  intro n
-  induction n with
-  | zero => intro s _ _ _ _ hn; omega
-  | succ n ih =>
-    intro s h hne hb hfuel hn
-    unfold objectListInner
-    obtain ⟨b, s1, e1, h1, hR1, hs1⟩ := lex_step (rel_eof d) h
-    refine bind_ex e1 ?_
-    have hss : s1 = s := by rw [hs1, hR1.2]
-    subst hss
-    by_cases he : b = true
-    · rw [if_pos he]
-      exact pure_ex ⟨h, Grow.refl s1⟩
-    · rw [if_neg he]
-      obtain ⟨res, s2, e2, h2, g2, hprog⟩ := (firstPassTot hd fuel).nextObject h hne hb hfuel
-      refine bind_ex e2 ?_
-      by_cases hok : res = .ok
-      · rw [if_neg (by rw [hok]; decide)]
-        have hlt := hprog hok
-        have hi2 := h2.inv.1
-        obtain ⟨b3, s3, e3, h3, g3⟩ := ih h2 (by have := g2.sc; omega) (hb.step g2 hi2 (Nat.le_refl _))
-          (Nat.le_trans (needNext_mono (by omega)) hfuel) (by omega)
-        exact ⟨b3, s3, e3, h3, g2.trans g3⟩
-      · rw [if_pos hok]
-        exact pure_ex ⟨h2, g2⟩
-
-/-- `popPkgEnd()` -/
-theorem popPkgEnd_step {d : Bytes} {s : PState} (h : FP d s) :
-    ∃ (a : Unit) (s' : PState), popPkgEnd d s = .ok (a, s') ∧ FP d s' ∧ s'.tree = s.tree ∧ s'.scopeStack = s.scopeStack ∧
-      s'.pkgEndStack = s.pkgEndStack.pop ∧ s'.r.offset = s.r.offset := by
-  unfold popPkgEnd
-  have e0 : (modify fun s => if s.pkgEndStack.size ≠ 0 then { s with pkgEndStack := s.pkgEndStack.pop } else s : P Unit) s =
-      .ok ((), { s with pkgEndStack := s.pkgEndStack.pop }) := by
-    show Except.ok ((), if s.pkgEndStack.size ≠ 0 then { s with pkgEndStack := s.pkgEndStack.pop } else s) = _
-    split
-    · rfl
-    · rename_i h0
-      have h0 : s.pkgEndStack.size = 0 := by omega
-      have : s.pkgEndStack.pop = s.pkgEndStack := by
-        have : s.pkgEndStack = #[] := Array.eq_empty_of_size_eq_zero h0
-        rw [this]; rfl
-      rw [this]
-  refine bind_ex e0 ?_
-  have h0 : FP d { s with pkgEndStack := s.pkgEndStack.pop } := ⟨h.inv, h.tree, h.scopes, h.skip⟩
-  have e1 : pkgEndTop { s with pkgEndStack := s.pkgEndStack.pop } =
-      .ok (s.pkgEndStack.pop.back?, { s with pkgEndStack := s.pkgEndStack.pop }) := rfl
-  refine bind_ex e1 ?_
-  cases s.pkgEndStack.pop.back? with
-  | none => exact pure_ex ⟨h0, rfl, rfl, rfl, rfl⟩
-  | some e =>
-    obtain ⟨b, s2, e2, h2, hR2, hs2⟩ := lex_step (rel_setPkgEnd d e) h0
-    refine bind_ex e2 ?_
-    exact pure_ex ⟨h2, by rw [hs2], by rw [hs2], by rw [hs2], hR2.1⟩
-
-/-- `scopeExit()` with a non-empty scope stack -/
-theorem scopeExit_step {d : Bytes} {s : PState} (h : FP d s) (hne : s.scopeStack.size ≠ 0) :
-    ∃ s', scopeExit s = .ok ((), s') ∧ FP d s' ∧ s' = { s with scopeStack := s.scopeStack.pop } := by
-  refine ⟨{ s with scopeStack := s.scopeStack.pop }, ?_, ⟨h.inv, h.tree, ?_, h.skip⟩, rfl⟩
-  · unfold scopeExit
-    rw [if_neg hne]; rfl
-  · intro x hx
-    show x < s.tree.pool.size
-    apply h.scopes x
-    simp only [Array.toList_pop] at hx
-    exact (List.dropLast_sublist _).subset hx
-
-/-- `parseObjectList()`: total, and the first-pass invariant holds at the end -/
-theorem parseObjectList_tot {d : Bytes} (hd : d.size + 268435456 ≤ 4294967296) (fuel : Nat) :
-    ∀ (n : Nat) {s : PState}, FP d s → Bud d 0 s → s.scopeStack.size ≤ s.pkgEndStack.size →
-      needNext (d.size - s.r.offset) ≤ fuel → d.size - s.r.offset + 1 ≤ fuel →
-      d.size - s.r.offset + s.pkgEndStack.size + 1 ≤ n →
-      ∃ res s', parseObjectList d fuel n s = .ok (res, s') ∧ FP d s' := by
-  intro n
-  induction n with
-  | zero => intro s _ _ _ _ _ hn; omega
-  | succ n ih =>
-    intro s h hb hstk hfuel hfuel2 hn
-    unfold parseObjectList
-    have e0 : stackSizes s = .ok ((s.pkgEndStack.size, s.scopeStack.size), s) := rfl
-    refine bind_ex e0 ?_
-    by_cases hz : s.scopeStack.size = 0
-    · rw [if_pos hz]
-      exact pure_ex h
-    · rw [if_neg hz]
-      obtain ⟨b, s1, e1, h1, g1⟩ := objectListInner_tot hd fuel fuel h hz hb hfuel hfuel2
-      refine bind_ex e1 ?_
-      by_cases hbt : b = true
-      · rw [hbt]
-        have e2 : stackSizes s1 = .ok ((s1.pkgEndStack.size, s1.scopeStack.size), s1) := rfl
-        refine bind_ex e2 ?_
-        have hne1 : s1.scopeStack.size ≠ 0 := by have := g1.sc; omega
-        have hstk1 : s1.scopeStack.size ≤ s1.pkgEndStack.size := by have := g1.scpk; omega
-        have hi1 := h1.inv.1
-        have hb1 : Bud d 0 s1 := hb.step g1 hi1 (Nat.le_refl _)
-        have hmeas : d.size - s1.r.offset + s1.pkgEndStack.size ≤ d.size - s.r.offset + s.pkgEndStack.size := by
-          have := g1.pkoff; have := g1.off; omega
-        have hoff := g1.off
-        -- what follows the optional `scopeExit`
-        have cont : ∀ s2 : PState, FP d s2 → s2.tree = s1.tree → s2.r = s1.r → s2.pkgEndStack = s1.pkgEndStack →
-            s2.scopeStack.size + 1 ≤ s1.pkgEndStack.size →
-            ∃ res s', (popPkgEnd d >>= fun _ => parseObjectList d fuel n) s2 = .ok (res, s') ∧ FP d s' := by
-          intro s2 h2 ht2 hr2 hpk2 hsc2
-          obtain ⟨_, s3, e3, h3, ht3, hsc3, hpk3, ho3⟩ := popPkgEnd_step h2
-          refine bind_ex e3 ?_
-          have hpk3s : s3.pkgEndStack.size + 1 = s1.pkgEndStack.size := by
-            rw [hpk3, hpk2]; simp only [Array.size_pop]; omega
-          have ho31 : s3.r.offset = s1.r.offset := by rw [ho3, hr2]
-          have hb3 : Bud d 0 s3 := by
-            unfold Bud at hb1 ⊢; rw [ht3, ht2, ho31]; exact hb1
-          exact ih h3 hb3 (by rw [hsc3]; omega) (by rw [ho31]; exact Nat.le_trans (needNext_mono (by omega)) hfuel)
-            (by rw [ho31]; omega) (by rw [ho31]; omega)
-        dsimp only
-        split
-        · rename_i heq
-          obtain ⟨s2, e2', h2, hs2⟩ := scopeExit_step h1 hne1
-          refine bind_ex e2' ?_
-          refine cont s2 h2 (by rw [hs2]) (by rw [hs2]) (by rw [hs2]) ?_
-          rw [hs2]; show s1.scopeStack.pop.size + 1 ≤ _
-          simp only [Array.size_pop]; omega
-        · rename_i hneq
-          exact cont s1 h1 rfl rfl rfl (by omega)
-      · have hbf : b = false := by cases b <;> simp_all
-        rw [hbf]
-        exact pure_ex h1
-
-/-! ## the first pass of `ParseAML` -/
 
 /-- `p.init(…)`, `p.scopeEnter(0)` and `p.parseObjectList()`: what `ParseAML` does before the tree passes -/
 def firstPass (d : Bytes) (fuel handle : Nat) : P PRes := do
@@ -2549,70 +677,8 @@ theorem parseAML_of_firstPass (d : Bytes) (fuel handle : Nat) (s : PState) :
     simp only [StateT.bind, he]
     rfl
 
-/-- the first pass of a table below 256 MiB parsed into a pool without freed slots (for instance the pool
-`CreateDefaultScopes` builds) with room for 16 objects per table byte: it returns normally and leaves the
-first-pass invariant, in particular a well-formed pool -/
-theorem firstPass_tot {d : Bytes} (hd : d.size + 268435456 ≤ 4294967296) {s : PState} (ht : TreeOK s.tree)
-    (hsz : s.tree.pool.size + 16 * d.size ≤ INV) (fuel handle : Nat) (hfuel : 13 * d.size + 13 ≤ fuel) :
-    ∃ res s', firstPass d fuel handle s = .ok (res, s') ∧ FP d s' := by
-  unfold firstPass
-  let s0 : PState := { s with tableHandle := handle, resolvePasses := 0, mergedScopes := 0, relocatedObjects := 0, allBlocks := false, scopeStack := #[], pkgEndStack := #[] }
-  let s1 : PState := { s0 with r := Reader.init d headerLen, streamEnd := d.size }
-  have h1 : FP d s1 := ⟨⟨by show (if headerLen > d.size then d.size else headerLen) ≤ d.size; split <;> omega, Nat.le_refl _⟩,
-    ht, fun x hx => (by cases hx), rfl⟩
-  obtain ⟨b, s2, e2, h2, hs2, ho2⟩ := pushPkgEnd_step h1 d.size
-  have e3 : scopeEnter 0 s2 = .ok ((), { s2 with scopeStack := s2.scopeStack.push 0 }) := rfl
-  have hinit : ∃ (u : Unit) (s' : PState), init d handle s = .ok (u, s') ∧ s' = s2 := by
-    unfold init
-    refine bind_ex (s1 := s0) rfl ?_
-    refine bind_ex (s1 := s1) rfl ?_
-    refine bind_ex e2 ?_
-    exact pure_ex rfl
-  obtain ⟨_, s', hinit, hs'⟩ := hinit
-  rw [hs'] at hinit
-  refine bind_ex hinit ?_
-  refine bind_ex e3 ?_
-  have ht2 : s2.tree = s.tree := by rw [hs2]
-  have hsc2 : s2.scopeStack = #[] := by rw [hs2]
-  have hpk2 : s2.pkgEndStack = #[d.size] := by rw [hs2]; rfl
-  have h3 : FP d { s2 with scopeStack := s2.scopeStack.push 0 } := by
-    refine ⟨h2.inv, h2.tree, ?_, h2.skip⟩
-    intro x hx
-    show x < s2.tree.pool.size
-    rw [hsc2] at hx
-    simp at hx
-    rw [hx]; exact h2.tree.nonempty
-  have hi := h2.inv.1
-  refine parseObjectList_tot hd fuel fuel h3 ?_ ?_ ?_ ?_ ?_
-  · unfold Bud; show s2.tree.pool.size + 16 * (d.size - s2.r.offset) + 0 ≤ INV
-    rw [ht2]; omega
-  · show (s2.scopeStack.push 0).size ≤ s2.pkgEndStack.size
-    rw [hsc2, hpk2]; simp
-  · show needNext (d.size - s2.r.offset) ≤ fuel
-    unfold needNext needOA needArgs needArg needT; omega
-  · show d.size - s2.r.offset + 1 ≤ fuel
-    omega
-  · show d.size - s2.r.offset + s2.pkgEndStack.size + 1 ≤ fuel
-    rw [hpk2]; simp; omega
-
 /-- `fuelFor` covers the fuel the first pass needs -/
 theorem fuelFor_enough (d : Bytes) (t : ObjectTree) : 13 * d.size + 13 ≤ fuelFor d t := by
   unfold fuelFor; omega
-
-/-- executable check of `TreeOK` (used for the non-vacuity example: the default scopes) -/
-def treeOKb (t : ObjectTree) : Bool :=
-  wfCheck t && decide (0 < t.pool.size) &&
-  (List.range t.pool.size).all fun x =>
-    live t x && (C13.P t x == INV || decide (C13.P t x < x)) && (opFlags (slot t x).infoIndex).isSome
-
-theorem treeOK_of_b {t : ObjectTree} (h : treeOKb t = true) : TreeOK t := by
-  unfold treeOKb at h
-  simp only [Bool.and_eq_true, decide_eq_true_eq, List.all_eq_true, List.mem_range, Bool.or_eq_true, beq_iff_eq] at h
-  obtain ⟨⟨hw, hne⟩, hall⟩ := h
-  refine ⟨by unfold wfCheck at hw; exact wfCert_sound' hw, fun i hi => (hall i hi).1.1, ?_, fun x hx => (hall x hx).2, hne⟩
-  intro x hx hp
-  rcases (hall x hx).1.2 with h1 | h1
-  · exact absurd h1 hp
-  · exact h1
 
 end Firefly.AmlParser
